@@ -539,3 +539,1469 @@ with sq :=
       end ].
 (* goal: smem x l = true *)
 Ltac st := apply smem_true_In; in_solve.
+
+(* ================================================================== matryer *)
+Lemma tp_binders_eq tps : tp_binders tps = map (IDecl true) (map tdecl tps).
+Proof. unfold tp_binders. now rewrite map_map. Qed.
+Lemma tp_inst_eq tps : tp_inst tps = map (IUse KTParam) (map tdecl tps).
+Proof. unfold tp_inst. now rewrite map_map. Qed.
+Lemma g_tparams_eq tps : g_tparams tps = true -> map tdecl tps = map torig tps.
+Proof.
+  unfold g_tparams. induction tps as [|t tps IH]; [reflexivity|]. cbn [forallb map].
+  rewrite andb_true_iff. intros [E F]. apply seqb_eq in E. now rewrite E, IH.
+Qed.
+
+Lemma forallb_impl {A} (p q : A -> bool) l :
+  (forall x, In x l -> p x = true -> q x = true) -> forallb p l = true -> forallb q l = true.
+Proof. rewrite !forallb_forall. auto. Qed.
+
+Lemma names_ok_nb ns n : names_ok ns = true -> In n ns -> seqb n blank = false.
+Proof.
+  unfold names_ok. rewrite andb_true_iff, forallb_forall. intros [_ F] H. apply negb_true_iff. auto.
+Qed.
+Lemma names_ok_nd ns : names_ok ns = true -> nodupb ns = true.
+Proof. unfold names_ok. rewrite andb_true_iff. tauto. Qed.
+
+(* the scope after the type parameter binders *)
+Definition s_tp (T : list str) : scope := add_tys T empty_scope.
+Lemma tys_ok_tp T : tys_ok T [s_tp T] = true.
+Proof.
+  cbn [tys_ok s_tp add_tys st empty_scope]. rewrite app_nil_r. apply andb_true_iff.
+  split; apply forallb_forall; intros n H; apply smem_In.
+  - apply in_rev. exact H.
+  - apply in_rev in H. exact H.
+Qed.
+
+Lemma builtin_ok c n : d_builtins c = true -> In n builtins ->
+  smem n universe_vals && negb (smem n (c_vals c)) && negb (smem n (c_types c)) && negb (smem n (c_quals c)) = true.
+Proof. unfold d_builtins. rewrite forallb_forall. auto. Qed.
+
+Lemma disjointb_sym a b : disjointb a b = true -> disjointb b a = true.
+Proof. rewrite !disjointb_spec. intros H x Hx Ha. exact (H x Ha Hx). Qed.
+Lemma disjointb_sub_l a a' b : disjointb a b = true -> incl a' a -> disjointb a' b = true.
+Proof. rewrite !disjointb_spec. intros H I x Hx. apply H, I, Hx. Qed.
+Lemma disjointb_sub_r a b b' : disjointb a b = true -> incl b' b -> disjointb a b' = true.
+Proof. rewrite !disjointb_spec. intros H I x Hx Hb. exact (H x Hx (I x Hb)). Qed.
+
+Lemma disjointb_nil_r a : disjointb a [] = true.
+Proof. apply disjointb_spec. intros x _ []. Qed.
+Lemma disjointb_nil_l a : disjointb [] a = true.
+Proof. reflexivity. Qed.
+Lemma disjointb_rev_r a b : disjointb a b = true -> disjointb a (rev b) = true.
+Proof. rewrite !disjointb_spec. intros H x Hx Hb. apply in_rev in Hb. exact (H x Hx Hb). Qed.
+Lemma disjointb_rev_l a b : disjointb a b = true -> disjointb (rev a) b = true.
+Proof. rewrite !disjointb_spec. intros H x Hx. apply in_rev in Hx. exact (H x Hx). Qed.
+Lemma disjointb_cons_r a y l : smem y a = false -> disjointb a l = true -> disjointb a (y :: l) = true.
+Proof.
+  rewrite !disjointb_spec. intros H1 H2 x Hx [->|Hl]; [apply smem_false in H1; contradiction | exact (H2 x Hx Hl)].
+Qed.
+Lemma disjointb_cons_l y a b : smem y b = false -> disjointb a b = true -> disjointb (y :: a) b = true.
+Proof. intros H1 H2. unfold disjointb in *. cbn [forallb]. now rewrite H1, H2. Qed.
+
+Lemma tys_ok_inner T s env : st s = [] -> tys_ok T env = true -> tys_ok T (s :: env) = true.
+Proof. intros E K. destruct env; [discriminate|]. cbn [tys_ok]. now rewrite E. Qed.
+Lemma tys_ok_same_st T s s' : st s = st s' -> tys_ok T [s'] = true -> tys_ok T [s] = true.
+Proof. cbn [tys_ok]. now intros ->. Qed.
+
+Ltac incl_solve := let x := fresh "x" in let H := fresh "H" in intros x H; in_solve.
+
+Ltac tysok :=
+  repeat (apply tys_ok_inner; [reflexivity|]);
+  match goal with |- tys_ok ?T [_] = true => apply (tys_ok_same_st T _ (s_tp T)); [reflexivity | apply tys_ok_tp] end.
+
+Ltac dj :=
+  first
+    [ assumption
+    | apply disjointb_sym; assumption
+    | apply disjointb_nil_r
+    | apply disjointb_nil_l
+    | apply disjointb_app_r; split; dj
+    | apply disjointb_app_l; split; dj
+    | apply disjointb_rev_r; dj
+    | apply disjointb_rev_l; dj
+    | apply disjointb_cons_r; [sf | dj]
+    | apply disjointb_cons_l; [sf | dj]
+    | match goal with
+      | H : disjointb ?a ?b = true |- disjointb ?a ?b' = true => apply (disjointb_sub_r a b b' H); incl_solve
+      | H : disjointb ?a ?b = true |- disjointb ?a' ?b = true => apply (disjointb_sub_l a a' b H); incl_solve
+      | H : disjointb ?b ?a = true |- disjointb ?a ?b' = true => apply disjointb_sym; apply (disjointb_sub_l b b' a H); incl_solve
+      | H : disjointb ?b ?a = true |- disjointb ?a' ?b = true => apply disjointb_sym; apply (disjointb_sub_r b a a' H); incl_solve
+      end ].
+
+Ltac envc := cbn [vars_of flat_map sv st declare add_vars add_tys s_tp empty_scope app removelast last rev].
+
+Lemma use_fields c outer cur ns l :
+  names_ok ns = true -> wf_items c outer cur (fields ns :: l) = wf_items c outer cur l.
+Proof.
+  intros N. unfold fields. eapply wf_block_ok. apply wf_dvs; [exact (names_ok_nd _ N)|].
+  apply forallb_forall. intros n Hn. now rewrite (names_ok_nb _ _ N Hn).
+Qed.
+
+Ltac uvar0 c T := unfold uv at 1; rewrite (use_var0 c T); [| tysok | envc; sf | envc; st].
+Ltac uvarany c T := unfold uv at 1; rewrite (use_varany c T); [| tysok | envc; st].
+Ltac ubuiltin c T HB := unfold ub at 1; rewrite (use_builtin c T); [| tysok | envc; sf | sf | apply builtin_ok; [exact HB | in_solve]].
+Ltac ddecl := unfold dv at 1; rewrite wf_decl_ok; [| reflexivity | unfold has; envc; apply orb_false_iff; split; sf].
+
+(* side conditions of the group lemmas *)
+Ltac each := apply forallb_forall; let x := fresh "x" in let Hx := fresh "Hx" in intros x Hx.
+
+Lemma d_method_parts c tps m : d_method c tps m = true ->
+  names_ok (pnames (mps m)) = true /\ names_ok (rnames (mrs m)) = true /\ names_ok (pexps (mps m)) = true /\
+  forallb (fun p => types_known c tps (pty p)) (mps m) = true /\
+  forallb (fun r => types_known c tps (rty r)) (mrs m) = true /\
+  forallb (fun n => smem n (mvisible m)) (pnames (mps m)) = true /\ d_tf_names m = true.
+Proof. unfold d_method. rewrite !andb_true_iff. tauto. Qed.
+
+Lemma tys_ok_declare T n cur outer : tys_ok T (declare false n cur :: outer) = tys_ok T (cur :: outer).
+Proof. destruct outer; reflexivity. Qed.
+
+Lemma add_vars_cons n ns s : add_vars ns (declare false n s) = add_vars (n :: ns) s.
+Proof. unfold add_vars, declare. cbn [sv st rev]. now rewrite <- app_assoc. Qed.
+
+Section SeqDecls.
+Variables (c : fctx) (T : list str) (tps : list tpdata).
+Hypothesis ET : T = map torig tps.
+Context {A : Type} (ty : A -> tyitems) (nm : A -> str).
+(* var ( a A; b B ): declarations in sequence, every type after the earlier names *)
+Lemma seq_decls outer xs : forall cur l,
+  names_ok (map nm xs) = true ->
+  forallb (fun n => negb (has n cur)) (map nm xs) = true ->
+  forallb (fun x => types_known c tps (ty x)) xs = true ->
+  tys_ok T (cur :: outer) = true ->
+  disjointb (flat_map (fun x => ty_idents (ty x)) xs) (vars_of (cur :: outer) ++ map nm xs) = true ->
+  wf_items c outer cur (flat_map (fun x => intent tps (ty x) ++ [dv (nm x)]) xs ++ l)
+  = wf_items c outer (add_vars (map nm xs) cur) l.
+Proof.
+  induction xs as [|r rs IH]; intros cur l N H K TO D.
+  - destruct cur; reflexivity.
+  - cbn [flat_map map forallb] in *.
+    unfold names_ok in N. cbn [nodupb forallb] in N. apply andb_true_iff in N as [N1 N2].
+    apply andb_true_iff in N1 as [N1a N1b]. apply andb_true_iff in N2 as [N2a N2b].
+    apply andb_true_iff in H as [H1 H2]. apply andb_true_iff in K as [K1 K2].
+    apply disjointb_app_l in D as [D1 D2]. apply negb_true_iff in N1a, N2a, H1.
+    rewrite <- !app_assoc.
+    apply disjointb_app_r in D1 as [D1a D1b].
+    rewrite (use_type c T tps outer cur (ty r)); [| exact ET | exact K1 | exact TO | exact D1a].
+    cbn [app]. unfold dv at 1. rewrite wf_decl_ok; [| exact N2a | exact H1].
+    rewrite IH.
+    + now rewrite add_vars_cons.
+    + unfold names_ok. now rewrite N1b, N2b.
+    + apply forallb_forall. intros x Hx. rewrite forallb_forall in H2. specialize (H2 x Hx).
+      apply negb_true_iff in H2. apply negb_true_iff. unfold has in *. unfold declare. cbn [sv st].
+      apply orb_false_iff in H2 as [H2a H2b]. rewrite smem_cons, H2a, H2b.
+      assert (seqb x (nm r) = false) as ->; [|reflexivity].
+      apply seqb_neq. intros ->. apply smem_false in N1a. contradiction.
+    + exact K2.
+    + rewrite tys_ok_declare. exact TO.
+    + apply disjointb_app_r in D2 as [D2a D2b]. apply disjointb_app_r. split.
+      * cbn [vars_of flat_map declare sv app]. fold (vars_of outer).
+        apply disjointb_cons_r.
+        -- unfold disjointb in D2b. apply smem_false. intros Hin.
+           rewrite forallb_forall in D2b. specialize (D2b _ Hin). cbn [smem] in D2b. now rewrite seqb_refl in D2b.
+        -- exact D2a.
+      * apply (disjointb_sub_r _ _ _ D2b). intros x Hx. now right.
+Qed.
+End SeqDecls.
+
+Section SeqResults.
+Variables (c : fctx) (T : list str) (tps : list tpdata).
+Hypothesis ET : T = map torig tps.
+Lemma seq_results outer rs cur l :
+  names_ok (rnames rs) = true ->
+  forallb (fun n => negb (has n cur)) (rnames rs) = true ->
+  forallb (fun r => types_known c tps (rty r)) rs = true ->
+  tys_ok T (cur :: outer) = true ->
+  disjointb (flat_map (fun r => ty_idents (rty r)) rs) (vars_of (cur :: outer) ++ rnames rs) = true ->
+  wf_items c outer cur (flat_map (fun r => intent tps (rty r) ++ [dv (rn r)]) rs ++ l)
+  = wf_items c outer (add_vars (rnames rs) cur) l.
+Proof. apply (seq_decls c T tps ET rty rn). Qed.
+End SeqResults.
+
+Section MatryerTops.
+Variables (c : fctx) (o : mopts) (tps : list tpdata) (S : str).
+Let T := map tdecl tps.
+Hypothesis HTe : map tdecl tps = map torig tps.
+Hypothesis HTn : names_ok T = true.
+Hypothesis HB : d_builtins c = true.
+Hypothesis HS : smem S (c_filetypes c) = true.
+Hypothesis HTids : disjointb (tp_idents tps) (mt_vars ++ builtins ++ [S]) = true.
+
+Section Method.
+Variable m : mdata.
+Let P := pnames (mps m).
+Let R := rnames (mrs m).
+Hypothesis HD : d_method c tps m = true.
+Hypothesis HC : g_capture tps m = true.
+Hypothesis HP : g_mt_params m = true.
+Hypothesis HF : g_mt_fields m = true.
+Hypothesis HT : g_mt_types S tps m = true.
+
+Lemma mt_method_facts :
+  names_ok P = true /\ names_ok R = true /\ names_ok (pexps (mps m)) = true /\
+  forallb (fun p => types_known c tps (pty p)) (mps m) = true /\
+  forallb (fun r => types_known c tps (rty r)) (mrs m) = true /\
+  disjointb P (flat_map (fun p => ty_idents (pty p)) (mps m)) = true /\
+  disjointb P (flat_map (fun r => ty_idents (rty r)) (mrs m)) = true /\
+  disjointb P T = true /\
+  disjointb R (flat_map (fun p => ty_idents (pty p)) (mps m)) = true /\
+  disjointb R (flat_map (fun r => ty_idents (rty r)) (mrs m)) = true /\
+  disjointb R T = true /\
+  disjointb P mt_taboo = true /\
+  disjointb (flat_map (fun p => ty_idents (pty p)) (mps m)) (mt_vars ++ builtins ++ [S]) = true /\
+  disjointb (flat_map (fun r => ty_idents (rty r)) (mrs m)) (mt_vars ++ builtins ++ [S]) = true /\
+  disjointb T (mt_vars ++ builtins ++ [S]) = true /\ T = map torig tps.
+Proof.
+  destruct (d_method_parts _ _ _ HD) as (HPn & HRn & HPe & Hpt & Hrt & Hvis & Hnames).
+  unfold g_capture, sig_idents in HC. fold P R in HC.
+  apply disjointb_app_l in HC as [HCP HCR].
+  apply disjointb_app_r in HCP as [HCP1 HCP]. apply disjointb_app_r in HCP as [HCP2 HCP]. apply disjointb_app_r in HCP as [HCP3 HCP4].
+  apply disjointb_app_r in HCR as [HCR1 HCR]. apply disjointb_app_r in HCR as [HCR2 HCR]. apply disjointb_app_r in HCR as [HCR3 HCR4].
+  unfold g_mt_types, sig_idents in HT. apply disjointb_app_l in HT as [HT1 HT]. apply disjointb_app_l in HT as [HT2 HT].
+  apply disjointb_app_l in HT as [HT3 HT4].
+  repeat split; assumption.
+Qed.
+
+Ltac mt_prelude :=
+  destruct mt_method_facts as (HPn & HRn & HPe & Hpt & Hrt & HCP1 & HCP2 & HCP4 & HCR1 & HCR2 & HCR4 & HP' & HT1 & HT2 & HTfix & ET).
+
+Lemma mt_method_wf i : iftps i = tps -> ifstruct i = S -> wf_top c (mt_method_top o i m) = true.
+Proof.
+  intros Ei Es. mt_prelude.
+  unfold wf_top, mt_method_top. rewrite Ei, Es. cbn [t_items mk_top]. fold P R.
+  rewrite tp_binders_eq. fold T.
+  (* type parameter binders *)
+  rewrite decl_tys; [| exact (names_ok_nd _ HTn) | each; rewrite (names_ok_nb _ _ HTn Hx); reflexivity ].
+  fold (s_tp T).
+  (* receiver type *)
+  cbn [app]. unfold utop at 1.
+  rewrite (use_top c T); [| tysok | envc; reflexivity | sf | exact HS].
+  (* signature *)
+  unfold ptys at 1. rewrite (use_types c T tps _ _ pty); [| exact ET | exact Hpt | tysok | envc; dj].
+  unfold rtys at 1. rewrite (use_types c T tps _ _ rty); [| exact ET | exact Hrt | tysok | envc; dj].
+  (* receiver and parameters *)
+  cbn [app]. unfold dv at 1.
+  rewrite wf_decl_ok; [| reflexivity | unfold has; envc; apply orb_false_iff; split; sf].
+  rewrite decl_vars; [| exact (names_ok_nd _ HPn)
+                      | each; rewrite (names_ok_nb _ _ HPn Hx); unfold has; envc; cbn [andb negb];
+                        apply negb_true_iff, orb_false_iff; split; sf].
+  (* body *)
+  assert (forall l,
+     wf_items c [] (add_vars P (declare false (L "mock") (s_tp T)))
+       ((if stub_impl o then [] else [IBlock [uv true (L "mock"); ub "nil"; IBlock [ub "panic"]]]) ++ l)
+     = wf_items c [] (add_vars P (declare false (L "mock") (s_tp T))) l) as PANIC.
+  { intros l. destruct (stub_impl o); [reflexivity|]. cbn [app].
+    eapply wf_block_ok. uvar0 c T. ubuiltin c T HB.
+    erewrite wf_block_ok; [reflexivity|]. ubuiltin c T HB. reflexivity. }
+  rewrite PANIC. clear PANIC.
+  rewrite use_fields; [| exact HPe].
+  unfold ptys at 1. rewrite (use_types c T tps _ _ pty); [| exact ET | exact Hpt | tysok | envc; dj].
+  rewrite (use_vars0 c T); [| tysok | each; envc; apply andb_true_iff; split; [reflexivity | st]].
+  ddecl.
+  uvar0 c T. ubuiltin c T HB. uvar0 c T. uvar0 c T. uvar0 c T. uvar0 c T.
+  assert (forall l,
+     wf_items c [] (declare false (L "callInfo") (add_vars P (declare false (L "mock") (s_tp T))))
+       ((if stub_impl o
+         then [IBlock [uv true (L "mock"); ub "nil";
+                       IBlock (flat_map (fun r => intent tps (rty r) ++ [dv (rn r)]) (mrs m) ++ uvs false R)]]
+         else []) ++ l)
+     = wf_items c [] (declare false (L "callInfo") (add_vars P (declare false (L "mock") (s_tp T)))) l) as STUB.
+  { intros l. destruct (stub_impl o); [|reflexivity]. cbn [app].
+    eapply wf_block_ok. uvar0 c T. ubuiltin c T HB.
+    erewrite wf_block_ok; [reflexivity|].
+    rewrite (seq_results c T tps ET); [| exact HRn | each; reflexivity | exact Hrt | tysok | envc; dj].
+    rewrite <- (app_nil_r (uvs false R)).
+    rewrite (use_varsany c T); [reflexivity | tysok | each; envc; st]. }
+  rewrite STUB. clear STUB.
+  uvar0 c T.
+  rewrite <- (app_nil_r (uvs true P)).
+  rewrite (use_vars0 c T); [reflexivity | tysok | each; envc; apply andb_true_iff; split; [reflexivity | st]].
+Qed.
+Lemma mt_calls_wf i : iftps i = tps -> ifstruct i = S -> wf_top c (mt_calls_top i m) = true.
+Proof.
+  intros Ei Es. mt_prelude.
+  unfold wf_top, mt_calls_top. rewrite Ei, Es. cbn [t_items mk_top]. fold P R.
+  rewrite tp_binders_eq. fold T.
+  rewrite decl_tys; [| exact (names_ok_nd _ HTn) | each; rewrite (names_ok_nb _ _ HTn Hx); reflexivity ].
+  fold (s_tp T).
+  cbn [app]. unfold utop at 1.
+  rewrite (use_top c T); [| tysok | envc; reflexivity | sf | exact HS].
+  rewrite use_fields; [| exact HPe].
+  unfold ptys at 1. rewrite (use_types c T tps _ _ pty); [| exact ET | exact Hpt | tysok | envc; dj].
+  cbn [app]. ddecl.
+  rewrite use_fields; [| exact HPe].
+  unfold ptys at 1. rewrite (use_types c T tps _ _ pty); [| exact ET | exact Hpt | tysok | envc; dj].
+  cbn [app]. ddecl.
+  uvar0 c T. uvar0 c T. uvar0 c T. uvar0 c T. uvar0 c T. reflexivity.
+Qed.
+End Method.
+
+Lemma mt_triple_ok l :
+  wf_items c [] (declare false (L "mock") (s_tp T)) (mt_lock_triple ++ l)
+  = wf_items c [] (declare false (L "mock") (s_tp T)) l.
+Proof.
+  assert (disjointb T (mt_vars ++ builtins ++ [S]) = true) as HTfix.
+  { apply (disjointb_sub_l _ _ _ HTids). unfold tp_idents. fold T. incl_solve. }
+  unfold mt_lock_triple. cbn [app]. uvar0 c T. ubuiltin c T HB. uvar0 c T. uvar0 c T. reflexivity.
+Qed.
+
+Lemma mt_reset_head i l : iftps i = tps -> ifstruct i = S ->
+  wf_items c [] empty_scope (tp_binders (iftps i) ++ [utop (ifstruct i); dv (L "mock")] ++ l)
+  = wf_items c [] (declare false (L "mock") (s_tp T)) l.
+Proof.
+  intros Ei Es. rewrite Ei, Es.
+  assert (disjointb T (mt_vars ++ builtins ++ [S]) = true) as HTfix.
+  { apply (disjointb_sub_l _ _ _ HTids). unfold tp_idents. fold T. incl_solve. }
+  rewrite tp_binders_eq. fold T.
+  rewrite decl_tys; [| exact (names_ok_nd _ HTn) | each; rewrite (names_ok_nb _ _ HTn Hx); reflexivity ].
+  fold (s_tp T). cbn [app]. unfold utop at 1.
+  rewrite (use_top c T); [| tysok | envc; reflexivity | sf | exact HS].
+  ddecl. reflexivity.
+Qed.
+
+Lemma mt_reset_wf i m : iftps i = tps -> ifstruct i = S -> wf_top c (mt_reset_top i m) = true.
+Proof.
+  intros Ei Es. unfold wf_top, mt_reset_top. cbn [t_items mk_top].
+  rewrite (mt_reset_head i _ Ei Es). rewrite <- (app_nil_r mt_lock_triple), mt_triple_ok. reflexivity.
+Qed.
+
+Lemma mt_resetall_wf i : iftps i = tps -> ifstruct i = S -> wf_top c (mt_resetall_top i) = true.
+Proof.
+  intros Ei Es. unfold wf_top, mt_resetall_top. cbn [t_items mk_top].
+  rewrite (mt_reset_head i _ Ei Es).
+  induction (ifms i) as [|m ms IH]; [reflexivity|]. cbn [flat_map]. rewrite mt_triple_ok. exact IH.
+Qed.
+
+Section Struct.
+Variables (f : fdata) (i : idata).
+Hypothesis Ei : iftps i = tps.
+Hypothesis Es : ifstruct i = S.
+Hypothesis HTcon : forallb (fun t => types_known c tps (tcon t)) tps = true.
+Hypothesis HMs : forallb (d_method c tps) (ifms i) = true.
+Hypothesis HF1 : names_ok (map (fun m => func_name (mn m)) (ifms i) ++ [L "calls"] ++ map (fun m => lock_name (mn m)) (ifms i)) = true.
+Hypothesis HF2 : names_ok (map mn (ifms i)) = true.
+Hypothesis Hsync : ifms i <> [] -> smem (sync_q f) (c_quals c) = true /\ smem (sync_q f) T = false.
+
+Lemma mt_struct_sigs ms l : forallb (d_method c tps) ms = true ->
+  wf_items c [] (s_tp T) (flat_map (fun m => ptys tps (mps m) ++ rtys tps (mrs m)) ms ++ l) = wf_items c [] (s_tp T) l.
+Proof.
+  induction ms as [|m ms IH]; intros H; [reflexivity|]. cbn [forallb flat_map] in *.
+  apply andb_true_iff in H as [H1 H2].
+  destruct (d_method_parts _ _ _ H1) as (_ & _ & _ & Hpt & Hrt & _ & _).
+  rewrite <- !app_assoc.
+  unfold ptys at 1. rewrite (use_types c T tps _ _ pty); [| exact HTe | exact Hpt | tysok | envc; dj].
+  unfold rtys at 1. rewrite (use_types c T tps _ _ rty); [| exact HTe | exact Hrt | tysok | envc; dj].
+  now apply IH.
+Qed.
+
+Lemma mt_struct_recs ms l : forallb (d_method c tps) ms = true ->
+  wf_items c [] (s_tp T) (flat_map (fun m => fields (pexps (mps m)) :: ptys tps (mps m)) ms ++ l) = wf_items c [] (s_tp T) l.
+Proof.
+  induction ms as [|m ms IH]; intros H; [reflexivity|]. cbn [forallb flat_map] in *.
+  apply andb_true_iff in H as [H1 H2].
+  destruct (d_method_parts _ _ _ H1) as (_ & _ & HPe & Hpt & _ & _ & _).
+  cbn [app]. rewrite use_fields; [| exact HPe]. rewrite <- app_assoc.
+  unfold ptys at 1. rewrite (use_types c T tps _ _ pty); [| exact HTe | exact Hpt | tysok | envc; dj].
+  now apply IH.
+Qed.
+
+Lemma mt_struct_locks q ms : smem q (c_quals c) = true -> smem q T = false ->
+  wf_items c [] (s_tp T) (map (fun _ : mdata => uq q) ms) = Some (s_tp T).
+Proof.
+  intros Q NT. induction ms as [|m ms IH]; [reflexivity|]. cbn [map]. unfold uq at 1.
+  rewrite (use_qual c T); [exact IH | tysok | envc; reflexivity | exact NT | exact Q].
+Qed.
+
+Lemma mt_struct_wf : wf_top c (mt_struct_top f i) = true.
+Proof.
+  unfold wf_top, mt_struct_top. rewrite Ei, Es. cbn [t_items mk_top].
+  unfold tp_decl. rewrite tp_binders_eq. fold T. rewrite <- !app_assoc.
+  rewrite decl_tys; [| exact (names_ok_nd _ HTn) | each; rewrite (names_ok_nb _ _ HTn Hx); reflexivity ].
+  fold (s_tp T).
+  rewrite (use_types c T tps _ _ tcon); [| exact HTe | exact HTcon | tysok | envc; dj].
+  cbn [app]. rewrite use_fields; [| exact HF1].
+  rewrite mt_struct_sigs; [| exact HMs].
+  cbn [app]. rewrite use_fields; [| exact HF2].
+  rewrite mt_struct_recs; [| exact HMs].
+  destruct (ifms i) as [|m0 ms0] eqn:E; [reflexivity|].
+  destruct Hsync as [Q NT]; [discriminate|].
+  rewrite (mt_struct_locks _ _ Q NT). reflexivity.
+Qed.
+End Struct.
+End MatryerTops.
+
+(* ------------------------------------------------------------------ matryer: the ensure line *)
+Lemma tys_ok_nil : tys_ok [] [empty_scope] = true.
+Proof. reflexivity. Qed.
+
+Lemma mt_ensure_args_ok c tps l :
+  forallb (fun t => match tens t with Some ty => types_known c [] ty | None => false end) tps = true ->
+  wf_items c [] empty_scope (ensure_args tps ++ l) = wf_items c [] empty_scope l.
+Proof.
+  induction tps as [|t tps IH]; intros H; [reflexivity|]. cbn [forallb] in H. apply andb_true_iff in H as [H1 H2].
+  unfold ensure_args in *. cbn [flat_map]. destruct (tens t) as [ty|]; [|discriminate].
+  rewrite <- app_assoc. rewrite (use_type c [] [] [] empty_scope ty); [now apply IH | reflexivity | exact H1 | reflexivity |].
+  cbn [vars_of flat_map sv empty_scope app]. apply disjointb_nil_r.
+Qed.
+
+Lemma mt_ensure_wf c f i :
+  smem (ifstruct i) (c_filetypes c) = true ->
+  (if f_inpkg f then pkg_type_ok c (ifname i) else smem (f_srcname f) (c_quals c)) = true ->
+  forallb (fun t => match tens t with Some ty => types_known c [] ty | None => false end) (iftps i) = true ->
+  wf_top c (mt_ensure_top f i) = true.
+Proof.
+  intros HS HQ HA. unfold wf_top, mt_ensure_top. cbn [t_items mk_top].
+  assert (forall l, wf_items c [] empty_scope ((if f_inpkg f then [IUse KPkgType (ifname i)] else [uq (f_srcname f)]) ++ l)
+                    = wf_items c [] empty_scope l) as HEAD.
+  { intros l. destruct (f_inpkg f); cbn [app].
+    - rewrite (use_pkgtype c []); [reflexivity | reflexivity | reflexivity | reflexivity | exact HQ].
+    - unfold uq. rewrite (use_qual c []); [reflexivity | reflexivity | reflexivity | reflexivity | exact HQ]. }
+  rewrite HEAD, mt_ensure_args_ok; [| exact HA]. cbn [app]. unfold utop at 1.
+  rewrite (use_top c []); [| reflexivity | reflexivity | reflexivity | exact HS].
+  rewrite <- (app_nil_r (ensure_args (iftps i))), mt_ensure_args_ok; [reflexivity | exact HA].
+Qed.
+
+(* ------------------------------------------------------------------ file level *)
+Lemma wf_file_split s :
+  wf_file s =
+  (let quals := filter (fun q => negb (seqb q blank) && negb (seqb q dot)) (map snd (s_imports s)) in
+   let used := flat_map (fun t => flat_map qual_uses (t_items t)) (s_tops s) in
+   nodupb (map fst (s_imports s)) && nodupb quals && forallb (fun q => smem q used) quals)
+  && file_names_ok s && forallb (wf_top (skel_ctx s)) (s_tops s).
+Proof. unfold wf_file, file_names_ok. cbv zeta. rewrite !andb_assoc. reflexivity. Qed.
+
+Lemma nodupb_filter (p : str -> bool) l : nodupb l = true -> nodupb (filter p l) = true.
+Proof.
+  rewrite !nodupb_NoDup. apply NoDup_filter.
+Qed.
+
+Lemma qual_uses_block l : qual_uses (IBlock l) = flat_map qual_uses l.
+Proof. induction l as [|i l IH]; [reflexivity|]. cbn [flat_map]. rewrite <- IH. reflexivity. Qed.
+
+Lemma quses_intent tps ty q : In q (ty_quals ty) -> In q (flat_map qual_uses (intent tps ty)).
+Proof.
+  unfold ty_quals, intent. induction ty as [|i ty IH]; [tauto|]. cbn [flat_map map]. intros H.
+  apply in_app_or in H as [H|H]; apply in_or_app; [left | right; now apply IH].
+  destruct i as [[] n| |]; try contradiction. exact H.
+Qed.
+
+Lemma quses_types {A} tps (proj : A -> tyitems) xs x q :
+  In x xs -> In q (ty_quals (proj x)) -> In q (flat_map qual_uses (flat_map (fun x => intent tps (proj x)) xs)).
+Proof.
+  intros Hx Hq. apply (quses_intent tps) in Hq. apply in_flat_map in Hq as (it & Hit & Hq).
+  apply in_flat_map. exists it. split; [|exact Hq]. apply in_flat_map. exists x. now split.
+Qed.
+
+Lemma flat_map_app' {A B} (g : A -> list B) a b : flat_map g (a ++ b) = flat_map g a ++ flat_map g b.
+Proof. apply flat_map_app. Qed.
+
+(* registry facts *)
+Lemma reg_of_rinv f :
+  nodupb (map fst (f_imports f)) = true -> nodupb (map snd (f_imports f)) = true -> RInv (reg_of f).
+Proof.
+  intros N1 N2. unfold RInv, quals, reg_of. cbn [imports]. rewrite !map_map. cbn [ipath].
+  split; [now apply nodupb_NoDup|].
+  replace (map (fun x => qualifier {| ipath := fst x; iname := snd x; ialias := [] |}) (f_imports f))
+    with (map snd (f_imports f)); [now apply nodupb_NoDup|].
+  apply map_ext. reflexivity.
+Qed.
+
+Lemma reg_of_quals f : quals (reg_of f) = map snd (f_imports f).
+Proof. unfold quals, reg_of. cbn [imports]. rewrite map_map. apply map_ext. reflexivity. Qed.
+Lemma reg_of_paths f : map ipath (imports (reg_of f)) = map fst (f_imports f).
+Proof. unfold reg_of. cbn [imports]. rewrite map_map. reflexivity. Qed.
+
+Lemma imports_of_paths r : Permutation (map ipath (imports r)) (map fst (imports_of r)).
+Proof. unfold imports_of. rewrite map_map. cbn [fst]. apply Permutation_map, imports_sorted_perm. Qed.
+Lemma imports_of_quals r : Permutation (quals r) (map snd (imports_of r)).
+Proof. unfold imports_of, quals. rewrite map_map. cbn [snd]. apply Permutation_map, imports_sorted_perm. Qed.
+
+Lemma matryer_reg_rinv f : RInv (reg_of f) -> RInv (matryer_reg f).
+Proof. intros H. unfold matryer_reg. destruct (implements_some f); [now apply add_import_inv | exact H]. Qed.
+
+Lemma matryer_reg_mono f : incl (imports (reg_of f)) (imports (matryer_reg f)).
+Proof.
+  unfold matryer_reg. destruct (implements_some f); [|apply incl_refl].
+  pose proof (add_import_cases (reg_of f) sync_p sync_p) as H.
+  destruct (add_import (reg_of f) sync_p sync_p) as [r' x]. cbn [fst].
+  destruct H as (_ & _ & [(_ & -> & _) | [(_ & -> & _) | (_ & _ & i & _ & E & _)]]); try apply incl_refl.
+  rewrite E. apply incl_appl, incl_refl.
+Qed.
+
+(* either the source already imports "sync", or the template's AddImport appended it *)
+Lemma matryer_reg_sync f :
+  implements_some f = true -> RInv (reg_of f) ->
+  In (sync_q f) (quals (reg_of f)) \/ quals (matryer_reg f) = quals (reg_of f) ++ [sync_q f].
+Proof.
+  intros I RI. pose proof (matryer_reg_rinv f RI) as RI'.
+  unfold sync_q. unfold matryer_reg in *. rewrite I in *.
+  pose proof (add_import_cases (reg_of f) sync_p sync_p) as H.
+  destruct (add_import (reg_of f) sync_p sync_p) as [r' x] eqn:EA. cbn [fst] in *.
+  destruct H as (_ & _ & [([HS1 HS2] & _) | [(_ & -> & i & _ & F) | (_ & F & i & _ & E & P & Q)]]).
+  - unfold reg_of in HS2. discriminate.
+  - apply find_path_some in F as [Hin Hp]. rewrite <- Hp.
+    rewrite (pkg_qualifier_agrees _ _ RI Hin). left. now apply in_map.
+  - assert (In i (imports r')) as Hin by (rewrite E; apply in_or_app; right; now left).
+    rewrite <- P. rewrite (pkg_qualifier_agrees _ _ RI' Hin). right.
+    unfold quals. rewrite E, map_app. reflexivity.
+Qed.
+Lemma matryer_reg_nosync f : implements_some f = false -> matryer_reg f = reg_of f.
+Proof. unfold matryer_reg. now intros ->. Qed.
+
+Lemma matryer_reg_sync' f :
+  implements_some f = true -> RInv (reg_of f) ->
+  (matryer_reg f = reg_of f) \/ quals (matryer_reg f) = quals (reg_of f) ++ [sync_q f].
+Proof.
+  intros I RI. pose proof (matryer_reg_rinv f RI) as RI'.
+  unfold sync_q. unfold matryer_reg in *. rewrite I in *.
+  pose proof (add_import_cases (reg_of f) sync_p sync_p) as H.
+  destruct (add_import (reg_of f) sync_p sync_p) as [r' x] eqn:EA. cbn [fst] in *.
+  destruct H as (_ & _ & [(_ & -> & _) | [(_ & -> & _) | (_ & F & i & _ & E & P & Q)]]); [now left | now left |].
+  assert (In i (imports r')) as Hin by (rewrite E; apply in_or_app; right; now left).
+  rewrite <- P. rewrite (pkg_qualifier_agrees _ _ RI' Hin). right.
+  unfold quals. rewrite E, map_app. reflexivity.
+Qed.
+
+Lemma sync_q_in f : implements_some f = true -> RInv (reg_of f) -> In (sync_q f) (quals (matryer_reg f)).
+Proof.
+  intros I RI. pose proof (matryer_reg_rinv f RI) as RI'.
+  unfold sync_q. unfold matryer_reg in *. rewrite I in *.
+  pose proof (add_import_cases (reg_of f) sync_p sync_p) as H.
+  destruct (add_import (reg_of f) sync_p sync_p) as [r' x] eqn:EA. cbn [fst] in *.
+  destruct H as (_ & _ & [([HS1 HS2] & _) | [(_ & -> & i & _ & F) | (_ & F & i & _ & E & P & Q)]]).
+  - unfold reg_of in HS2. discriminate.
+  - apply find_path_some in F as [Hin Hp]. rewrite <- Hp. rewrite (pkg_qualifier_agrees _ _ RI Hin). now apply in_map.
+  - assert (In i (imports r')) as Hin by (rewrite E; apply in_or_app; right; now left).
+    rewrite <- P. rewrite (pkg_qualifier_agrees _ _ RI' Hin). now apply in_map.
+Qed.
+
+Lemma data_ok_parts f c : data_ok f c = true ->
+  nodupb (map fst (f_imports f)) = true /\ names_ok (map snd (f_imports f)) = true /\
+  forallb (fun q => negb (seqb q dot)) (map snd (f_imports f)) = true /\
+  forallb (fun q => smem q (all_type_quals f)) (map snd (f_imports f)) = true /\
+  nonempty (f_ifaces f) = true /\ d_builtins c = true /\ forallb (d_iface c) (f_ifaces f) = true.
+Proof. unfold data_ok. rewrite !andb_true_iff. tauto. Qed.
+Lemma d_iface_parts c i : d_iface c i = true ->
+  names_ok (map tdecl (iftps i)) = true /\
+  forallb (fun t => types_known c (iftps i) (tcon t)) (iftps i) = true /\
+  forallb (d_method c (iftps i)) (ifms i) = true.
+Proof. unfold d_iface. rewrite !andb_true_iff. tauto. Qed.
+
+Lemma quses_flat {A} (g : A -> list item) xs x q :
+  In x xs -> In q (flat_map qual_uses (g x)) -> In q (flat_map qual_uses (flat_map g xs)).
+Proof.
+  intros Hx Hq. apply in_flat_map in Hq as (it & Hit & Hq).
+  apply in_flat_map. exists it. split; [|exact Hq]. apply in_flat_map. exists x. now split.
+Qed.
+
+Section MatryerFile.
+Variables (o : mopts) (f : fdata).
+Let s := matryer_skel o f.
+Let c := skel_ctx s.
+Hypothesis HD : data_ok f c = true.
+Hypothesis HM : d_mt o f c = true.
+Hypothesis HG : mt_guards o f = true.
+Hypothesis HN : file_names_ok s = true.
+
+Lemma mt_struct_in i : In i (f_ifaces f) -> In (mt_struct_top f i) (s_tops s).
+Proof.
+  intros Hi. unfold s, matryer_skel. cbn [s_tops]. apply in_flat_map. exists i. split; [exact Hi|].
+  unfold matryer_iface. apply in_or_app. right. apply in_or_app. left. now left.
+Qed.
+
+Lemma mt_S_filetype i : In i (f_ifaces f) -> smem (ifstruct i) (c_filetypes c) = true.
+Proof.
+  intros Hi. apply smem_In. unfold c, skel_ctx. cbn [c_filetypes]. unfold top_names.
+  change (ifstruct i) with (t_name (mt_struct_top f i)). apply in_map. apply filter_In. split; [now apply mt_struct_in|].
+  cbn [t_kind mt_struct_top mk_top is_type t_name andb].
+  unfold d_mt in HM. apply andb_true_iff in HM as [_ HM']. rewrite forallb_forall in HM'. specialize (HM' i Hi).
+  unfold d_mt_iface in HM'. rewrite !andb_true_iff in HM'. tauto.
+Qed.
+
+Lemma mt_rinv : RInv (reg_of f).
+Proof.
+  destruct (data_ok_parts _ _ HD) as (N1 & N2 & _). apply reg_of_rinv; [exact N1 | exact (names_ok_nd _ N2)].
+Qed.
+
+Lemma mt_quals_perm : Permutation (quals (matryer_reg f)) (c_quals c).
+Proof. unfold c, skel_ctx, s, matryer_skel. cbn [c_quals s_imports]. apply imports_of_quals. Qed.
+
+Lemma mt_src_quals q : In q (map snd (f_imports f)) -> smem q (c_quals c) = true.
+Proof.
+  intros H. apply smem_In. eapply Permutation_in; [apply mt_quals_perm|].
+  rewrite <- reg_of_quals in H. unfold quals in *. apply in_map_iff in H as (i & <- & Hi).
+  apply in_map. now apply matryer_reg_mono.
+Qed.
+
+(* every qualifier that occurs in a type of interface i occurs in the struct declaration of its mock *)
+Lemma mt_used_types i q : In i (f_ifaces f) ->
+  In q (flat_map (fun t => ty_quals (tcon t)) (iftps i)
+        ++ flat_map (fun m => flat_map (fun p => ty_quals (pty p)) (mps m) ++ flat_map (fun r => ty_quals (rty r)) (mrs m)) (ifms i)) ->
+  In q (flat_map (fun t => flat_map qual_uses (t_items t)) (s_tops s)).
+Proof.
+  intros Hi Hq. apply in_flat_map. exists (mt_struct_top f i). split; [now apply mt_struct_in|].
+  unfold mt_struct_top. cbn [t_items mk_top]. rewrite !flat_map_app'.
+  apply in_app_or in Hq as [Hq|Hq].
+  - apply in_or_app. left. unfold tp_decl. rewrite flat_map_app'. apply in_or_app. right.
+    apply in_flat_map in Hq as (t & Ht & Hq). eapply (quses_types (iftps i) tcon); eauto.
+  - apply in_or_app. right. apply in_or_app. right. apply in_or_app. left.
+    apply in_flat_map in Hq as (m & Hm & Hq).
+    apply (quses_flat _ (ifms i) m); [exact Hm|]. rewrite flat_map_app'.
+    apply in_app_or in Hq as [Hq|Hq]; apply in_or_app; [left | right];
+      apply in_flat_map in Hq as (x & Hx & Hq).
+    + eapply (quses_types (iftps i) pty); eauto.
+    + eapply (quses_types (iftps i) rty); eauto.
+Qed.
+
+Lemma mt_used_all q : In q (all_type_quals f) -> In q (flat_map (fun t => flat_map qual_uses (t_items t)) (s_tops s)).
+Proof.
+  unfold all_type_quals. intros H. apply in_flat_map in H as (i & Hi & Hq). eapply mt_used_types; eauto.
+Qed.
+
+Lemma mt_used_sync : implements_some f = true ->
+  In (sync_q f) (flat_map (fun t => flat_map qual_uses (t_items t)) (s_tops s)).
+Proof.
+  unfold implements_some. intros H. apply existsb_exists in H as (i & Hi & Hne).
+  apply in_flat_map. exists (mt_struct_top f i). split; [now apply mt_struct_in|].
+  unfold mt_struct_top. cbn [t_items mk_top]. rewrite !flat_map_app'.
+  do 5 (apply in_or_app; right).
+  destruct (ifms i) as [|m ms]; [discriminate|]. cbn [map flat_map qual_uses uq app]. now left.
+Qed.
+
+Lemma mt_imports_ok :
+  (let quals := filter (fun q => negb (seqb q blank) && negb (seqb q dot)) (map snd (s_imports s)) in
+   let used := flat_map (fun t => flat_map qual_uses (t_items t)) (s_tops s) in
+   nodupb (map fst (s_imports s)) && nodupb quals && forallb (fun q => smem q used) quals) = true.
+Proof.
+  cbv zeta. pose proof mt_rinv as RI. pose proof (matryer_reg_rinv f RI) as [N1 N2].
+  destruct (data_ok_parts _ _ HD) as (_ & _ & _ & Hneeded & _).
+  rewrite !andb_true_iff. repeat split.
+  - apply nodupb_NoDup. eapply Permutation_NoDup; [apply imports_of_paths | exact N1].
+  - apply nodupb_filter. apply nodupb_NoDup. eapply Permutation_NoDup; [apply imports_of_quals | exact N2].
+  - apply forallb_forall. intros q Hq. apply filter_In in Hq as [Hq _]. apply smem_In.
+    assert (In q (quals (matryer_reg f))) as Hq'.
+    { eapply Permutation_in; [apply Permutation_sym, imports_of_quals | exact Hq]. }
+    assert (In q (map snd (f_imports f)) -> In q (flat_map (fun t => flat_map qual_uses (t_items t)) (s_tops s))) as FromSrc.
+    { intros H. apply mt_used_all. rewrite forallb_forall in Hneeded. apply smem_In. now apply Hneeded. }
+    destruct (implements_some f) eqn:I.
+    + destruct (matryer_reg_sync' f I RI) as [E|E].
+      * rewrite E, reg_of_quals in Hq'. now apply FromSrc.
+      * rewrite E, reg_of_quals in Hq'. apply in_app_or in Hq' as [H|[<-|[]]]; [now apply FromSrc | now apply mt_used_sync].
+    + rewrite (matryer_reg_nosync f I), reg_of_quals in Hq'. now apply FromSrc.
+Qed.
+Lemma mt_guards_parts i : In i (f_ifaces f) ->
+  g_tparams (iftps i) = true /\ g_mt_tps (ifstruct i) (iftps i) = true /\
+  forallb (fun m => g_capture (iftps i) m && g_mt_params m && g_mt_fields m && g_mt_types (ifstruct i) (iftps i) m) (ifms i) = true /\
+  (skip_ensure o || (g_mt_ensure_import f && forallb (g_mt_ensure_arg (iftps i)) (iftps i))) = true.
+Proof.
+  intros Hi. unfold mt_guards in HG. rewrite forallb_forall in HG. specialize (HG i Hi).
+  unfold mt_guards_iface in HG. rewrite !andb_true_iff in HG. tauto.
+Qed.
+
+Lemma mt_tops_ok : forallb (wf_top c) (s_tops s) = true.
+Proof.
+  apply forallb_forall. intros t Ht. unfold s, matryer_skel in Ht. cbn [s_tops] in Ht.
+  apply in_flat_map in Ht as (i & Hi & Ht).
+  destruct (data_ok_parts _ _ HD) as (_ & HQn & _ & _ & _ & HB & HI).
+  rewrite forallb_forall in HI. specialize (HI i Hi).
+  destruct (d_iface_parts _ _ HI) as (HTn & HTcon & HMs).
+  destruct (mt_guards_parts i Hi) as (GT & GTP & GM & GE).
+  pose proof (g_tparams_eq _ GT) as HTe.
+  pose proof (mt_S_filetype i Hi) as HS.
+  unfold d_mt in HM. apply andb_true_iff in HM as [HMe HMi]. rewrite forallb_forall in HMi. specialize (HMi i Hi).
+  unfold d_mt_iface in HMi. rewrite !andb_true_iff in HMi. destruct HMi as [[[_ HF1] HF2] HSy].
+  unfold matryer_iface in Ht.
+  apply in_app_or in Ht as [Ht|Ht]; [| apply in_app_or in Ht as [Ht|Ht]; [| apply in_app_or in Ht as [Ht|Ht]]].
+  - (* ensure line *)
+    destruct (skip_ensure o) eqn:SK; [contradiction|]. destruct Ht as [<-|[]].
+    cbn [orb] in GE. apply andb_true_iff in GE as [GI GA].
+    unfold d_mt_ensure in HMe. rewrite SK in HMe. cbn [orb] in HMe. rewrite forallb_forall in HMe. specialize (HMe i Hi).
+    apply andb_true_iff in HMe as [HE1 HE2].
+    apply mt_ensure_wf; [exact HS | |].
+    + unfold g_mt_ensure_import in GI. destruct (f_inpkg f); cbn [negb orb] in *; [exact HE1|].
+      apply mt_src_quals. now apply smem_In.
+    + apply forallb_forall. intros tp Htp. rewrite forallb_forall in GA, HE2. specialize (GA tp Htp). specialize (HE2 tp Htp).
+      unfold g_mt_ensure_arg in GA. destruct (tens tp); [exact HE2 | discriminate].
+  - (* struct *)
+    destruct Ht as [<-|[]].
+    apply (mt_struct_wf c (iftps i) (ifstruct i)); try assumption; try reflexivity.
+    intros NE. split.
+    + apply smem_In. eapply Permutation_in; [apply mt_quals_perm|]. apply sync_q_in; [|apply mt_rinv].
+      unfold implements_some. apply existsb_exists. exists i. split; [exact Hi|]. destruct (ifms i); [congruence | reflexivity].
+    + now apply negb_true_iff.
+  - (* methods *)
+    apply in_flat_map in Ht as (m & Hm & Ht).
+    rewrite forallb_forall in HMs, GM. specialize (HMs m Hm). specialize (GM m Hm).
+    rewrite !andb_true_iff in GM. destruct GM as [[[GC GP] GF] GTy].
+    unfold matryer_method in Ht. cbn [app] in Ht. destruct Ht as [<-|[<-|Ht]].
+    + apply (mt_method_wf c o (iftps i) (ifstruct i)); try assumption; reflexivity.
+    + apply (mt_calls_wf c (iftps i) (ifstruct i)); try assumption; reflexivity.
+    + destruct (with_resets o); [|contradiction]. destruct Ht as [<-|[]].
+      apply (mt_reset_wf c (iftps i) (ifstruct i)); try assumption; reflexivity.
+  - destruct (with_resets o); [|contradiction]. destruct Ht as [<-|[]].
+    apply (mt_resetall_wf c (iftps i) (ifstruct i)); try assumption; reflexivity.
+Qed.
+
+Theorem matryer_wf : wf_file s = true.
+Proof.
+  rewrite wf_file_split. fold c. rewrite mt_imports_ok, HN, mt_tops_ok. reflexivity.
+Qed.
+End MatryerFile.
+
+(* ================================================================== testify *)
+Ltac uqual c T Q := unfold uq at 1; rewrite (use_qual c T); [| tysok | envc; sf | sf | exact Q].
+Ltac utopt c T H := unfold utop at 1; rewrite (use_top c T); [| tysok | envc; sf | sf | exact H].
+Ltac binders T HTn :=
+  rewrite tp_binders_eq; fold T;
+  rewrite decl_tys; [| exact (names_ok_nd _ HTn)
+                      | each; match goal with H : In _ _ |- _ => rewrite (names_ok_nb _ _ HTn H) end; reflexivity ];
+  fold (s_tp T).
+Ltac inst c T := rewrite ?tp_inst_eq; fold T;
+  rewrite (use_tparams c T); [| tysok | each; envc; apply andb_true_iff; split; [apply negb_true_iff; sf | st]].
+
+Section TestifyTops.
+Variables (c : fctx) (o : topts) (tps : list tpdata) (S : str) (ms : list mdata).
+Let T := map tdecl tps.
+Let E := expecter_name S.
+Hypothesis HTe : map tdecl tps = map torig tps.
+Hypothesis HTn : names_ok T = true.
+Hypothesis HB : d_builtins c = true.
+Hypothesis HS : smem S (c_filetypes c) = true.
+Hypothesis HE : smem E (c_filetypes c) = true.
+Hypothesis HQ : smem mock_q (c_quals c) = true.
+Hypothesis HTcon : forallb (fun t => types_known c tps (tcon t)) tps = true.
+Hypothesis HTids : disjointb (tp_idents tps) (tf_vars ++ builtins ++ tf_gen_types S ms) = true.
+Hypothesis HGen : disjointb (tf_gen_types S ms) tf_vars = true.
+
+Lemma tf_Tfix : disjointb T (tf_vars ++ builtins ++ tf_gen_types S ms) = true.
+Proof. apply (disjointb_sub_l _ _ _ HTids). unfold tp_idents. fold T. incl_solve. Qed.
+Lemma tf_Cfix : disjointb (flat_map (fun t => ty_idents (tcon t)) tps) (tf_vars ++ builtins ++ tf_gen_types S ms) = true.
+Proof. apply (disjointb_sub_l _ _ _ HTids). unfold tp_idents. incl_solve. Qed.
+
+(* the declaration part of a generic declaration: binders, then the constraints *)
+Lemma tf_tp_decl l :
+  wf_items c [] empty_scope (tp_decl tps ++ l) = wf_items c [] (s_tp T) l.
+Proof.
+  unfold tp_decl. rewrite <- app_assoc. binders T HTn.
+  rewrite (use_types c T tps _ _ tcon); [reflexivity | exact HTe | exact HTcon | tysok | envc; dj].
+Qed.
+
+Lemma tf_struct_like n fld :
+  wf_top c (mk_top TType n [] (tp_decl tps ++ [IBlock [dv fld]; uq mock_q])) = true.
+Proof.
+  pose proof tf_Tfix as HTfix.
+  unfold wf_top. cbn [t_items mk_top]. rewrite tf_tp_decl.
+  destruct (seqb fld blank) eqn:EB.
+  - erewrite wf_block_ok; [| unfold dv; cbn [wf_items wf_item]; rewrite EB; reflexivity].
+    uqual c T HQ. reflexivity.
+  - erewrite wf_block_ok; [| unfold dv; rewrite wf_decl_ok; [reflexivity | exact EB | reflexivity]].
+    uqual c T HQ. reflexivity.
+Qed.
+
+Lemma tf_ctor_wf i : iftps i = tps -> ifstruct i = S -> wf_top c (tf_ctor_top i) = true.
+Proof.
+  intros Ei Es. pose proof tf_Tfix as HTfix.
+  unfold wf_top, tf_ctor_top. rewrite Ei, Es. cbn [t_items mk_top]. rewrite tf_tp_decl.
+  cbn [app]. uqual c T HQ. utopt c T HS. inst c T. cbn [app]. ddecl. utopt c T HS. inst c T.
+  cbn [app]. ddecl. uvar0 c T. uvar0 c T. uvar0 c T.
+  erewrite wf_block_ok; [| uvar0 c T; uvar0 c T; reflexivity].
+  uvar0 c T. reflexivity.
+Qed.
+
+Lemma tf_expect_wf i : iftps i = tps -> ifstruct i = S -> wf_top c (tf_expect_top i) = true.
+Proof.
+  intros Ei Es. pose proof tf_Tfix as HTfix.
+  unfold wf_top, tf_expect_top. rewrite Ei, Es. cbn [t_items mk_top]. fold E. binders T HTn.
+  cbn [app]. utopt c T HS. utopt c T HE. inst c T. cbn [app]. ddecl. utopt c T HE. inst c T.
+  cbn [app]. uvar0 c T. reflexivity.
+Qed.
+End TestifyTops.
+
+(* ------------------------------------------------------------------ the names the template allocates (C15) *)
+Lemma tf_alloc_fresh m :
+  forallb (fun n => smem n (mvisible m)) (pnames (mps m)) = true ->
+  nodupb [ret_name m; rf_name m; ok_name m] = true /\
+  disjointb [ret_name m; rf_name m; ok_name m] (pnames (mps m)) = true.
+Proof.
+  intros V. unfold ret_name, rf_name, ok_name, tf_alloc, allocate, suggest, add_name. cbn [fst snd].
+  set (vis := mvisible m) in *.
+  set (r := fresh 1 (B "ret") vis). set (rf := fresh 1 (B "returnFunc") (r :: vis)).
+  set (k := fresh 1 (B "ok") (rf :: r :: vis)).
+  pose proof (fresh_not_in 1 (B "ret") vis) as F1. fold r in F1.
+  pose proof (fresh_not_in 1 (B "returnFunc") (r :: vis)) as F2. fold rf in F2.
+  pose proof (fresh_not_in 1 (B "ok") (rf :: r :: vis)) as F3. fold k in F3.
+  split.
+  - apply nodupb_NoDup. repeat constructor; simpl in *; intuition (subst; auto).
+  - apply disjointb_spec. intros x Hx Hp. rewrite forallb_forall in V. specialize (V x Hp). apply smem_In in V.
+    simpl in Hx, F2, F3. intuition (subst; auto).
+Qed.
+
+(* ------------------------------------------------------------------ the typed Run wrapper *)
+Definition anames (ras : list (pdata * option str)) : list str :=
+  flat_map (fun x => match snd x with Some a => [a] | None => [] end) ras.
+
+Lemma run_args_fst s i ps : map fst (run_args s i ps) = ps.
+Proof.
+  revert s i; induction ps as [|p ps IH]; intros s i; [reflexivity|]. cbn [run_args].
+  destruct (pnil p).
+  - unfold allocate. cbn [map fst]. now rewrite IH.
+  - cbn [map fst]. now rewrite IH.
+Qed.
+
+Lemma tys_ok_push_empty T env : tys_ok T env = true -> tys_ok T (empty_scope :: env) = true.
+Proof. intros H. apply tys_ok_inner; [reflexivity | exact H]. Qed.
+
+Lemma vars_of_declare n cur outer : vars_of (declare false n cur :: outer) = n :: vars_of (cur :: outer).
+Proof. reflexivity. Qed.
+Lemma vars_of_empty env : vars_of (empty_scope :: env) = vars_of env.
+Proof. reflexivity. Qed.
+
+Section RunPre.
+Variables (c : fctx) (T : list str) (tps : list tpdata).
+Hypothesis ET : T = map torig tps.
+Hypothesis HB : d_builtins c = true.
+Hypothesis HnilT : smem (L "nil") T = false.
+
+Definition run_pre (ras : list (pdata * option str)) : list item :=
+  flat_map (fun x => match snd x with
+                     | Some a => intent tps (pty (fst x))
+                                 ++ [dv a; IBlock [uv false (L "args"); ub "nil";
+                                                   IBlock ([uv false (L "args")] ++ intent tps (pty (fst x)) ++ [uv false a])]]
+                     | None => [] end) ras.
+Definition run_uses (ras : list (pdata * option str)) : list item :=
+  flat_map (fun x => match snd x with
+                     | Some a => [uv false a]
+                     | None => uv false (L "args") :: intent tps (pty (fst x)) end) ras.
+
+Lemma run_pre_ok outer ras : forall cur l,
+  names_ok (anames ras) = true ->
+  forallb (fun n => negb (has n cur)) (anames ras) = true ->
+  forallb (fun x => types_known c tps (pty (fst x))) ras = true ->
+  tys_ok T (cur :: outer) = true ->
+  disjointb (flat_map (fun x => ty_idents (pty (fst x))) ras) (vars_of (cur :: outer) ++ anames ras) = true ->
+  smem (L "args") (vars_of (cur :: outer)) = true ->
+  smem (L "nil") (vars_of (cur :: outer) ++ anames ras) = false ->
+  wf_items c outer cur (run_pre ras ++ l) = wf_items c outer (add_vars (anames ras) cur) l.
+Proof.
+  induction ras as [|[p oa] ras IH]; intros cur l N H K TO D HA HN.
+  - destruct cur; reflexivity.
+  - unfold run_pre in *. cbn [flat_map snd fst forallb anames] in *. fold (anames ras) in *.
+    apply andb_true_iff in K as [K1 K2]. apply disjointb_app_l in D as [D1 D2].
+    destruct oa as [a|].
+    + cbn [app] in *. unfold names_ok in N. cbn [nodupb forallb] in N. apply andb_true_iff in N as [N1 N2].
+      apply andb_true_iff in N1 as [N1a N1b]. apply andb_true_iff in N2 as [N2a N2b].
+      cbn [forallb] in H. apply andb_true_iff in H as [H1 H2]. apply negb_true_iff in N1a, N2a, H1.
+      apply disjointb_app_r in D1 as [D1a D1b].
+      rewrite smem_app in HN. apply orb_false_iff in HN as [HN1 HN2].
+      rewrite smem_cons in HN2. apply orb_false_iff in HN2 as [HN2a HN2b].
+      rewrite <- !app_assoc.
+      rewrite (use_type c T tps outer cur (pty p)); [| exact ET | exact K1 | exact TO | exact D1a].
+      cbn [app]. unfold dv at 1. rewrite wf_decl_ok; [| exact N2a | exact H1].
+      assert (tys_ok T (declare false a cur :: outer) = true) as TO' by (now rewrite tys_ok_declare).
+      assert (disjointb (ty_idents (pty p)) (vars_of (declare false a cur :: outer)) = true) as D1'.
+      { rewrite vars_of_declare. apply disjointb_cons_r; [|exact D1a].
+        apply smem_false. intros Hin. apply (proj1 (disjointb_spec _ _) D1b a Hin). now left. }
+      erewrite wf_block_ok.
+      2:{ unfold uv at 1. rewrite (use_varany c T); [| now apply tys_ok_push_empty | rewrite vars_of_empty, vars_of_declare, smem_cons, HA; apply orb_true_r].
+          unfold ub at 1. rewrite (use_builtin c T); [| now apply tys_ok_push_empty
+                                                     | rewrite vars_of_empty, vars_of_declare; apply smem_cons_false; [exact HN2a | exact HN1]
+                                                     | exact HnilT | apply builtin_ok; [exact HB | in_solve]].
+          erewrite wf_block_ok; [reflexivity|].
+          cbn [app]. unfold uv at 1. rewrite (use_varany c T); [| now do 2 apply tys_ok_push_empty | rewrite !vars_of_empty, vars_of_declare, smem_cons, HA; apply orb_true_r].
+          rewrite (use_type c T tps _ _ (pty p)); [| exact ET | exact K1 | now do 2 apply tys_ok_push_empty | rewrite !vars_of_empty; exact D1'].
+          cbn [app]. unfold uv at 1. rewrite (use_varany c T); [reflexivity | now do 2 apply tys_ok_push_empty | rewrite !vars_of_empty, vars_of_declare, smem_cons, seqb_refl; reflexivity]. }
+      rewrite IH.
+      * now rewrite add_vars_cons.
+      * unfold names_ok. now rewrite N1b, N2b.
+      * apply forallb_forall. intros x Hx. rewrite forallb_forall in H2. specialize (H2 x Hx).
+        apply negb_true_iff in H2. apply negb_true_iff. unfold has in *. unfold declare. cbn [sv st].
+        apply orb_false_iff in H2 as [H2a H2b]. rewrite smem_cons, H2a, H2b.
+        assert (seqb x a = false) as ->; [|reflexivity].
+        apply seqb_neq. intros ->. apply smem_false in N1a. contradiction.
+      * exact K2.
+      * exact TO'.
+      * apply disjointb_app_r in D2 as [D2a D2b]. apply disjointb_app_r. split.
+        -- rewrite vars_of_declare. apply disjointb_cons_r; [|exact D2a].
+           apply smem_false. intros Hin. apply (proj1 (disjointb_spec _ _) D2b a Hin). now left.
+        -- apply (disjointb_sub_r _ _ _ D2b). intros x Hx. now right.
+      * rewrite vars_of_declare, smem_cons, HA. apply orb_true_r.
+      * rewrite vars_of_declare. apply smem_app_false; [apply smem_cons_false; [|exact HN1] | exact HN2b].
+        exact HN2a.
+    + cbn [app]. apply IH; try assumption.
+Qed.
+
+Lemma run_uses_ok outer cur ras : forall l,
+  forallb (fun x => types_known c tps (pty (fst x))) ras = true ->
+  tys_ok T (cur :: outer) = true ->
+  disjointb (flat_map (fun x => ty_idents (pty (fst x))) ras) (vars_of (cur :: outer)) = true ->
+  smem (L "args") (vars_of (cur :: outer)) = true ->
+  forallb (fun a => smem a (vars_of (cur :: outer))) (anames ras) = true ->
+  wf_items c outer cur (run_uses ras ++ l) = wf_items c outer cur l.
+Proof.
+  induction ras as [|[p oa] ras IH]; intros l K TO D HA HV; [reflexivity|].
+  unfold run_uses in *. cbn [flat_map snd fst forallb anames] in *. fold (anames ras) in *.
+  apply andb_true_iff in K as [K1 K2]. apply disjointb_app_l in D as [D1 D2].
+  destruct oa as [a|].
+  - cbn [app forallb] in *. apply andb_true_iff in HV as [HV1 HV2].
+    unfold uv at 1. rewrite (use_varany c T); [| exact TO | exact HV1]. now apply IH.
+  - cbn [app] in *. rewrite <- app_assoc. cbn [app]. unfold uv at 1. rewrite (use_varany c T); [| exact TO | exact HA].
+    rewrite (use_type c T tps outer cur (pty p)); [| exact ET | exact K1 | exact TO | exact D1]. now apply IH.
+Qed.
+End RunPre.
+
+Lemma forallb_map_fst {A B} (g : A -> bool) (l : list (A * B)) :
+  forallb (fun x => g (fst x)) l = forallb g (map fst l).
+Proof. induction l as [|x l IH]; [reflexivity|]. cbn [forallb map]. now rewrite IH. Qed.
+Lemma flat_map_map_fst {A B X} (g : A -> list X) (l : list (A * B)) :
+  flat_map (fun x => g (fst x)) l = flat_map g (map fst l).
+Proof. induction l as [|x l IH]; [reflexivity|]. cbn [flat_map map]. now rewrite IH. Qed.
+Lemma last_p_in ps p : last_p ps = Some p -> In p ps.
+Proof.
+  unfold last_p. destruct (rev ps) as [|q r] eqn:E; [discriminate|]. intros H. injection H as ->.
+  apply in_rev. rewrite E. now left.
+Qed.
+Lemma incl_removelast {A} (l : list A) : incl (removelast l) l.
+Proof.
+  induction l as [|a l IH]; [apply incl_refl|]. cbn [removelast]. destruct l; [intros x []|].
+  intros x [->|H]; [now left | right; now apply IH].
+Qed.
+Lemma forallb_incl {A} (g : A -> bool) l l' : incl l' l -> forallb g l = true -> forallb g l' = true.
+Proof. rewrite !forallb_forall. auto. Qed.
+Lemma flat_map_incl {A B} (g : A -> list B) l l' : incl l' l -> incl (flat_map g l') (flat_map g l).
+Proof. intros I x H. apply in_flat_map in H as (y & Hy & Hx). apply in_flat_map. exists y. split; auto. Qed.
+
+Lemma wf_block_okb c outer cur b l :
+  match wf_items c (cur :: outer) empty_scope b with Some _ => true | None => false end = true ->
+  wf_items c outer cur (IBlock b :: l) = wf_items c outer cur l.
+Proof.
+  intros H. destruct (wf_items c (cur :: outer) empty_scope b) as [s'|] eqn:E; [|discriminate].
+  eapply wf_block_ok. exact E.
+Qed.
+
+Lemma map_blocks_ok c outer cur {A} (blk : A -> list item) xs l :
+  (forall x, In x xs -> match wf_items c (cur :: outer) empty_scope (blk x) with Some _ => true | None => false end = true) ->
+  wf_items c outer cur (map (fun x => IBlock (blk x)) xs ++ l) = wf_items c outer cur l.
+Proof.
+  induction xs as [|x xs IH]; intros H; [reflexivity|]. cbn [map app].
+  rewrite wf_block_okb; [apply IH; intros y Hy; apply H; now right | apply H; now left].
+Qed.
+Lemma combine_snd {A B} (a : list A) (b : list B) : length a = length b -> map snd (combine a b) = b.
+Proof. revert b; induction a as [|x a IH]; intros [|y b] H; try discriminate; [reflexivity|]. cbn. f_equal. apply IH. now injection H. Qed.
+Lemma combine_fst {A B} (a : list A) (b : list B) : length a = length b -> map fst (combine a b) = a.
+Proof. revert b; induction a as [|x a IH]; intros [|y b] H; try discriminate; [reflexivity|]. cbn. f_equal. apply IH. now injection H. Qed.
+Lemma r_names_from_length i n : length (r_names_from i n) = n.
+Proof. revert i; induction n as [|n IH]; intros i; [reflexivity|]. cbn. now rewrite IH. Qed.
+
+Section TestifyMethod.
+Variables (c : fctx) (o : topts) (tps : list tpdata) (S : str) (ms : list mdata) (m : mdata).
+Let T := map tdecl tps.
+Let E := expecter_name S.
+Let C := call_name S (mn m).
+Let P := pnames (mps m).
+Let R := rnames (mrs m).
+Let RI := r_names m.
+Let A := [ret_name m; rf_name m; ok_name m].
+Let AR := arg_names m.
+Hypothesis HTe : map tdecl tps = map torig tps.
+Hypothesis HTn : names_ok T = true.
+Hypothesis HB : d_builtins c = true.
+Hypothesis HS : smem S (c_filetypes c) = true.
+Hypothesis HE : smem E (c_filetypes c) = true.
+Hypothesis HCt : smem C (c_filetypes c) = true.
+Hypothesis HQ : smem mock_q (c_quals c) = true.
+Hypothesis HGen : disjointb (tf_gen_types S ms) tf_vars = true.
+Hypothesis HCin : In C (tf_gen_types S ms).
+Hypothesis HD : d_method c tps m = true.
+Hypothesis HC : g_capture tps m = true.
+Hypothesis HP : g_tf_params m = true.
+Hypothesis HR : g_tf_results m = true.
+Hypothesis HT : g_tf_types S ms tps m = true.
+Hypothesis HPG : disjointb P (tf_gen_types S ms) = true.
+
+Definition FIX := tf_vars ++ builtins ++ A ++ AR ++ RI ++ tf_gen_types S ms.
+
+Lemma tf_method_facts :
+  names_ok P = true /\ names_ok R = true /\
+  forallb (fun p => types_known c tps (pty p)) (mps m) = true /\
+  forallb (fun r => types_known c tps (rty r)) (mrs m) = true /\
+  disjointb P (flat_map (fun p => ty_idents (pty p)) (mps m)) = true /\
+  disjointb P (flat_map (fun r => ty_idents (rty r)) (mrs m)) = true /\
+  disjointb P T = true /\
+  disjointb R (flat_map (fun p => ty_idents (pty p)) (mps m)) = true /\
+  disjointb R (flat_map (fun r => ty_idents (rty r)) (mrs m)) = true /\
+  disjointb R T = true /\
+  disjointb P (tf_taboo ++ RI) = true /\
+  smem (L "_c") R = false /\
+  disjointb (flat_map (fun p => ty_idents (pty p)) (mps m)) FIX = true /\
+  disjointb (flat_map (fun r => ty_idents (rty r)) (mrs m)) FIX = true /\
+  disjointb T FIX = true /\ T = map torig tps /\
+  nodupb A = true /\ disjointb A P = true /\
+  nodupb (AR ++ RI) = true /\
+  disjointb (A ++ AR ++ RI) (tf_vars ++ builtins ++ [mock_q; blank]) = true /\
+  disjointb RI A = true.
+Proof.
+  destruct (d_method_parts _ _ _ HD) as (HPn & HRn & HPe & Hpt & Hrt & Hvis & Hnames).
+  unfold g_capture, sig_idents in HC. fold P R in HC.
+  apply disjointb_app_l in HC as [HCP HCR].
+  apply disjointb_app_r in HCP as [HCP1 HCP]. apply disjointb_app_r in HCP as [HCP2 HCP]. apply disjointb_app_r in HCP as [HCP3 HCP4].
+  apply disjointb_app_r in HCR as [HCR1 HCR]. apply disjointb_app_r in HCR as [HCR2 HCR]. apply disjointb_app_r in HCR as [HCR3 HCR4].
+  unfold g_tf_types, sig_idents in HT. apply disjointb_app_l in HT as [HT1 HT]. apply disjointb_app_l in HT as [HT2 HT].
+  apply disjointb_app_l in HT as [HT3 HT4].
+  destruct (tf_alloc_fresh m Hvis) as [HA1 HA2].
+  unfold d_tf_names in Hnames. rewrite !andb_true_iff in Hnames. destruct Hnames as [[N1 N2] N3].
+  unfold g_tf_results in HR. apply negb_true_iff in HR.
+  repeat split; assumption.
+Qed.
+Ltac tf_prelude :=
+  destruct tf_method_facts as (HPn & HRn & Hpt & Hrt & HCP1 & HCP2 & HCP4 & HCR1 & HCR2 & HCR4 & HPt & HRc & HT1 & HT2 & HTfix & ET
+                               & HAn & HAP & HARI & HNfix & HRIA);
+  assert (smem C T = false) as HCT by (apply (disjointb_smem_r _ _ _ HTfix); unfold FIX; in_solve);
+  assert (smem C tf_vars = false) as HCV by (apply (disjointb_smem_l _ _ _ HGen); exact HCin);
+  assert (smem C P = false) as HCP by (apply (disjointb_smem_r _ _ _ HPG); exact HCin).
+
+Lemma tf_expecter_method_wf i : iftps i = tps -> ifstruct i = S -> wf_top c (tf_expecter_method_top i m) = true.
+Proof.
+  intros Ei Es. tf_prelude.
+  unfold wf_top, tf_expecter_method_top. rewrite Ei, Es. cbn [t_items mk_top]. fold E C P. binders T HTn.
+  cbn [app]. unfold FIX in HTfix.
+  utopt c T HE. utopt c T HCt. inst c T. cbn [app]. ddecl.
+  rewrite decl_vars; [| exact (names_ok_nd _ HPn)
+                      | each; rewrite (names_ok_nb _ _ HPn Hx); unfold has; envc; cbn [andb negb];
+                        apply negb_true_iff, orb_false_iff; split; sf].
+  cbn [app]. utopt c T HCt. inst c T. cbn [app]. uvar0 c T.
+  assert (forall l, wf_items c [] (add_vars P (declare false (L "_e") (s_tp T)))
+                      ((if last_variadic (mps m) then [ub "append"] else []) ++ l)
+                    = wf_items c [] (add_vars P (declare false (L "_e") (s_tp T))) l) as AP.
+  { intros l. destruct (last_variadic (mps m)); [|reflexivity]. cbn [app]. ubuiltin c T HB. reflexivity. }
+  rewrite AP. rewrite <- (app_nil_r (uvs true P)).
+  rewrite (use_vars0 c T); [reflexivity | tysok | each; envc; apply andb_true_iff; split; [reflexivity | st]].
+Qed.
+
+Lemma tf_return_wf i : iftps i = tps -> ifstruct i = S -> wf_top c (tf_return_top i m) = true.
+Proof.
+  intros Ei Es. tf_prelude.
+  unfold wf_top, tf_return_top. rewrite Ei, Es. cbn [t_items mk_top]. fold E C R. binders T HTn.
+  cbn [app]. unfold FIX in *.
+  utopt c T HCt.
+  unfold rtys at 1. rewrite (use_types c T tps _ _ rty); [| exact ET | exact Hrt | tysok | envc; dj].
+  cbn [app]. utopt c T HCt. inst c T. cbn [app]. ddecl.
+  rewrite decl_vars; [| exact (names_ok_nd _ HRn)
+                      | each; rewrite (names_ok_nb _ _ HRn Hx); unfold has; envc; cbn [andb negb];
+                        apply negb_true_iff, orb_false_iff; split; sf].
+  cbn [app]. uvar0 c T.
+  rewrite (use_vars0 c T); [| tysok | each; envc; apply andb_true_iff; split; [reflexivity | st]].
+  cbn [app]. uvar0 c T. reflexivity.
+Qed.
+
+Lemma tf_runandreturn_wf i : iftps i = tps -> ifstruct i = S -> wf_top c (tf_runandreturn_top i m) = true.
+Proof.
+  intros Ei Es. tf_prelude.
+  unfold wf_top, tf_runandreturn_top. rewrite Ei, Es. cbn [t_items mk_top]. fold E C. binders T HTn.
+  cbn [app]. unfold FIX in *.
+  utopt c T HCt.
+  unfold ptys at 1. rewrite (use_types c T tps _ _ pty); [| exact ET | exact Hpt | tysok | envc; dj].
+  unfold rtys at 1. rewrite (use_types c T tps _ _ rty); [| exact ET | exact Hrt | tysok | envc; dj].
+  cbn [app]. utopt c T HCt. inst c T. cbn [app]. ddecl. ddecl.
+  uvar0 c T. uvar0 c T. uvar0 c T. reflexivity.
+Qed.
+Lemma nonvar_incl : incl (nonvar_ps m) (mps m).
+Proof. unfold nonvar_ps. destruct (last_variadic (mps m)); [apply incl_removelast | apply incl_refl]. Qed.
+
+Lemma tf_run_wf i : iftps i = tps -> ifstruct i = S -> wf_top c (tf_run_top o i m) = true.
+Proof.
+  intros Ei Es. tf_prelude.
+  unfold wf_top, tf_run_top. rewrite Ei, Es. cbn [t_items mk_top]. fold E C. binders T HTn.
+  cbn [app]. unfold FIX in *.
+  utopt c T HCt.
+  unfold ptys at 1. rewrite (use_types c T tps _ _ pty); [| exact ET | exact Hpt | tysok | envc; dj].
+  cbn [app]. utopt c T HCt. inst c T. cbn [app]. ddecl. ddecl. uvar0 c T.
+  rewrite wf_block_okb; [uvar0 c T; reflexivity|].
+  (* the closure *)
+  unfold tf_run_closure. cbv zeta.
+  set (ras := run_args (run_scope m) 0 (nonvar_ps m)).
+  change (flat_map (fun x : pdata * option str => match snd x with
+            | Some a => intent tps (pty (fst x)) ++ [dv a; IBlock [uv false (L "args"); ub "nil"; IBlock ([uv false (L "args")] ++ intent tps (pty (fst x)) ++ [uv false a])]]
+            | None => [] end) ras) with (run_pre tps ras).
+  change (flat_map (fun x : pdata * option str => match snd x with
+            | Some a => [uv false a]
+            | None => uv false (L "args") :: intent tps (pty (fst x)) end) ras) with (run_uses tps ras).
+  assert (anames ras = AR) as EA by reflexivity.
+  assert (map fst ras = nonvar_ps m) as EF by apply run_args_fst.
+  assert (nodupb AR = true) as HARn by (apply nodupb_app in HARI; tauto).
+  assert (names_ok AR = true) as HARok.
+  { unfold names_ok. rewrite HARn. cbn [andb]. apply forallb_forall. intros a Ha. apply negb_true_iff.
+    rewrite seqb_sym. apply (seqb_of_smem blank a AR); [|now apply smem_true_In].
+    apply smem_false. intros Hb. apply (proj1 (disjointb_spec _ _) HNfix blank); in_solve. }
+  assert (forallb (fun x => types_known c tps (pty (fst x))) ras = true) as HK.
+  { rewrite (forallb_map_fst (fun p => types_known c tps (pty p))), EF. exact (forallb_incl _ _ _ nonvar_incl Hpt). }
+  assert (incl (flat_map (fun x => ty_idents (pty (fst x))) ras) (flat_map (fun p => ty_idents (pty p)) (mps m))) as HI.
+  { rewrite (flat_map_map_fst (fun p => ty_idents (pty p))), EF. apply flat_map_incl, nonvar_incl. }
+  assert (disjointb (flat_map (fun x => ty_idents (pty (fst x))) ras) (tf_vars ++ builtins ++ A ++ AR ++ RI ++ tf_gen_types S ms) = true) as HTr
+    by exact (disjointb_sub_l _ _ _ HT1 HI).
+  cbn [app]. uqual c T HQ. ddecl.
+  rewrite (run_pre_ok c T tps ET HB); [| sf | rewrite EA; exact HARok | rewrite EA; each; apply negb_true_iff; unfold has; envc; apply orb_false_iff; split; sf
+                                       | exact HK | tysok | rewrite EA; envc; dj | envc; st | rewrite EA; envc; sf].
+  rewrite EA.
+  assert (forall l, wf_items c [declare false (L "run") (declare false (L "_c") (s_tp T))]
+                      (add_vars AR (declare false (L "args") empty_scope)) (uv true (L "run") :: run_uses tps ras ++ l)
+                    = wf_items c [declare false (L "run") (declare false (L "_c") (s_tp T))]
+                      (add_vars AR (declare false (L "args") empty_scope)) l) as RUN.
+  { intros l. uvar0 c T.
+    rewrite (run_uses_ok c T tps ET); [reflexivity | exact HK | tysok | envc; dj | envc; st | rewrite EA; each; envc; st]. }
+  destruct (last_variadic (mps m)) eqn:LV; [| rewrite <- (app_nil_r (run_uses tps ras)), RUN; reflexivity].
+  assert (exists elem, (match last_p (mps m) with Some p => intent tps (pty p) | None => [] end) = elem /\
+            forall outer cur l, tys_ok T (cur :: outer) = true ->
+              disjointb (flat_map (fun p => ty_idents (pty p)) (mps m)) (vars_of (cur :: outer)) = true ->
+              wf_items c outer cur (elem ++ l) = wf_items c outer cur l) as (elem & -> & ELEM).
+  { eexists. split; [reflexivity|]. intros outer cur l TO DJ. destruct (last_p (mps m)) as [p|] eqn:LP; [|reflexivity].
+    apply last_p_in in LP. rewrite (use_type c T tps); [reflexivity | exact ET | | exact TO |].
+    - rewrite forallb_forall in Hpt. now apply Hpt.
+    - apply (disjointb_sub_l _ _ _ DJ). intros x Hx. apply in_flat_map. exists p. now split. }
+  destruct (unroll o).
+  - cbn [app]. ubuiltin c T HB. rewrite <- app_assoc. rewrite ELEM; [| tysok | envc; dj]. cbn [app]. ubuiltin c T HB. uvarany c T. ddecl.
+    erewrite wf_block_ok.
+    2:{ uvarany c T. ddecl. ddecl.
+        erewrite wf_block_ok; [reflexivity|].
+        erewrite wf_block_ok; [reflexivity|].
+        uvarany c T. ubuiltin c T HB.
+        erewrite wf_block_ok; [reflexivity|].
+        cbn [app]. uvarany c T. rewrite ELEM; [| tysok | envc; dj]. cbn [app]. uvarany c T. uvarany c T. reflexivity. }
+    uvar0 c T.
+    rewrite (run_uses_ok c T tps ET); [| exact HK | tysok | envc; dj | envc; st | rewrite EA; each; envc; st].
+    uvarany c T. reflexivity.
+  - rewrite <- app_assoc. rewrite ELEM; [| tysok | envc; dj]. cbn [app]. ddecl.
+    erewrite wf_block_ok.
+    2:{ ubuiltin c T HB. uvarany c T.
+        erewrite wf_block_ok; [reflexivity|].
+        cbn [app]. uvarany c T. rewrite ELEM; [| tysok | envc; dj]. cbn [app]. uvarany c T. reflexivity. }
+    uvar0 c T.
+    rewrite (run_uses_ok c T tps ET); [| exact HK | tysok | envc; dj | envc; st | rewrite EA; each; envc; st].
+    uvarany c T. reflexivity.
+Qed.
+Ltac ddecla := unfold dv at 1; rewrite wf_decl_ok; [| first [reflexivity | assumption] | unfold has; envc; apply orb_false_iff; split; sf].
+Ltac p_uses c T := rewrite (use_vars0 c T); [| tysok | each; envc; apply andb_true_iff; split; [apply negb_true_iff; sf | st]].
+Ltac p_tys c T tps := unfold ptys at 1; rewrite (use_types c T tps _ _ pty); [| assumption | assumption | tysok | envc; dj].
+Ltac r_tys c T tps := unfold rtys at 1; rewrite (use_types c T tps _ _ rty); [| assumption | assumption | tysok | envc; dj].
+
+(* if returnFunc, ok := ret.Get(0).(func(...) (...)); ok { return returnFunc(...) } *)
+Ltac tail_whole c T tps :=
+  rewrite wf_block_okb;
+  [| uvar0 c T; p_tys c T tps; r_tys c T tps;
+     cbn [app]; ddecla; ddecla; uvarany c T;
+     rewrite wf_block_okb; [reflexivity|];
+     uvarany c T; rewrite <- (app_nil_r (uvs true _)); p_uses c T; reflexivity ].
+
+(* one block per result *)
+Ltac tail_result c T tps rx nx Hx :=
+  let Hf := fresh "Hf" in let Hs := fresh "Hs" in
+  pose proof (in_combine_l _ _ _ _ Hx) as Hf; pose proof (in_combine_r _ _ _ _ Hx) as Hs;
+  match goal with Hrt : forallb (fun r => types_known c tps (rty r)) ?rs = true |- _ =>
+    let K := fresh "K" in
+    assert (types_known c tps (rty rx) = true) as K by (rewrite forallb_forall in Hrt; now apply Hrt);
+    let I := fresh "I" in
+    assert (incl (ty_idents (rty rx)) (flat_map (fun r => ty_idents (rty r)) rs)) as I
+      by (intros ? ?; apply in_flat_map; exists rx; now split)
+  end;
+  match goal with
+  | I : incl (ty_idents (rty rx)) ?ids, H1 : disjointb P ?ids = true, H2 : disjointb ?ids ?FIXL = true |- _ =>
+    let D1 := fresh "D1" in let D2 := fresh "D2" in
+    pose proof (disjointb_sub_r _ _ _ H1 I) as D1; pose proof (disjointb_sub_l _ _ _ H2 I) as D2
+  end.
+
+(* ret := <called>; if len(ret) == 0 { panic }; var r_i T_i ...; the provider blocks; return r0, ... *)
+Ltac tail c T tps m HB HLEN :=
+  cbn [app]; ddecla;
+  erewrite wf_block_ok; [| ubuiltin c T HB; uvar0 c T; erewrite wf_block_ok; [reflexivity | ubuiltin c T HB; reflexivity]];
+  rewrite (seq_decls c T tps) with (ty := fun x : rdata * str => rty (fst x)) (nm := @snd rdata str);
+    [| assumption
+     | rewrite (combine_snd _ _ HLEN); assumption
+     | rewrite (combine_snd _ _ HLEN); each; apply negb_true_iff; unfold has; envc; apply orb_false_iff; split; sf
+     | rewrite (forallb_map_fst (fun r => types_known c tps (rty r))), (combine_fst _ _ HLEN); assumption
+     | tysok
+     | rewrite (flat_map_map_fst (fun r => ty_idents (rty r))), (combine_fst _ _ HLEN), (combine_snd _ _ HLEN); envc; dj ];
+  rewrite (combine_snd _ _ HLEN);
+  match goal with
+  | |- context [if ?b then [?w] else []] => destruct b; cbn [app]; [tail_whole c T tps | idtac]
+  | |- context [if ?b then ?w :: [?w'] else []] => destruct b; cbn [app]; [tail_whole c T tps; tail_whole c T tps | idtac]
+  end;
+  (rewrite map_blocks_ok;
+   [| let rx := fresh "rx" in let nx := fresh "nx" in let Hx := fresh "Hx" in
+      intros [rx nx] Hx; cbn [fst snd]; tail_result c T tps rx nx Hx;
+      uvar0 c T; p_tys c T tps;
+      rewrite (use_type c T tps _ _ (rty rx)); [| assumption | assumption | tysok | envc; dj];
+      cbn [app]; ddecla; ddecla; uvarany c T;
+      rewrite wf_block_okb; [| uvarany c T; p_uses c T; cbn [app]; uvar0 c T; reflexivity];
+      rewrite wf_block_okb; [reflexivity|];
+      unfold tf_else; destruct (riserr rx);
+      [ uvar0 c T; uvar0 c T; reflexivity
+      | destruct (rnil rx);
+        [ rewrite wf_block_okb; [reflexivity|]; uvar0 c T; ubuiltin c T HB;
+          rewrite wf_block_okb; [reflexivity|]; cbn [app]; uvar0 c T;
+          rewrite (use_type c T tps _ _ (rty rx)); [| assumption | assumption | tysok | envc; dj];
+          cbn [app]; uvar0 c T; reflexivity
+        | cbn [app]; uvar0 c T;
+          rewrite (use_type c T tps _ _ (rty rx)); [| assumption | assumption | tysok | envc; dj];
+          cbn [app]; uvar0 c T; reflexivity ] ] ];
+   rewrite <- (app_nil_r (uvs true _));
+   rewrite (use_vars0 c T); [reflexivity | tysok | each; envc; apply andb_true_iff; split; [reflexivity | st]]).
+
+Lemma last_variadic_p : last_variadic (mps m) = true ->
+  exists p, last_p (mps m) = Some p /\ In (pn p) P.
+Proof.
+  unfold last_variadic, last_p. destruct (rev (mps m)) as [|p r] eqn:ER; [discriminate|]. intros _.
+  exists p. split; [reflexivity|]. unfold P, pnames. apply in_map. apply in_rev. rewrite ER. now left.
+Qed.
+Lemma removelast_P : incl (pnames (removelast (mps m))) P.
+Proof. unfold P, pnames. intros x H. apply in_map_iff in H as (p & <- & Hp). apply in_map. now apply incl_removelast. Qed.
+
+Lemma tf_mock_wf i : iftps i = tps -> ifstruct i = S -> wf_top c (tf_mock_top o i m) = true.
+Proof.
+  intros Ei Es. tf_prelude.
+  unfold wf_top, tf_mock_top. rewrite Ei, Es. cbn [t_items mk_top]. fold E C P R. binders T HTn.
+  cbn [app]. unfold FIX in *.
+  utopt c T HS.
+  unfold ptys at 1. rewrite (use_types c T tps _ _ pty); [| exact ET | exact Hpt | tysok | envc; dj].
+  unfold rtys at 1. rewrite (use_types c T tps _ _ rty); [| exact ET | exact Hrt | tysok | envc; dj].
+  cbn [app]. ddecl.
+  rewrite decl_vars; [| exact (names_ok_nd _ HPn)
+                      | each; rewrite (names_ok_nb _ _ HPn Hx); unfold has; envc; cbn [andb negb];
+                        apply negb_true_iff, orb_false_iff; split; sf].
+  unfold tf_body. cbv zeta. fold P R RI.
+  assert (length (mrs m) = length RI) as HLEN by (unfold RI, r_names; now rewrite r_names_from_length).
+  assert (nodupb RI = true) as HRIn by (apply nodupb_app in HARI; tauto).
+  assert (forall n, In n RI -> seqb n blank = false) as HRIb.
+  { intros n Hn. rewrite seqb_sym. apply (seqb_of_smem blank n RI); [|now apply smem_true_In].
+    apply smem_false. intros Hb. apply (proj1 (disjointb_spec _ _) HNfix blank); in_solve. }
+  assert (names_ok RI = true) as HRIok.
+  { unfold names_ok. rewrite HRIn. cbn [andb]. apply forallb_forall. intros n Hn. now rewrite (HRIb n Hn). }
+  assert (seqb (ret_name m) blank = false /\ seqb (rf_name m) blank = false /\ seqb (ok_name m) blank = false) as (HBr & HBf & HBo).
+  { repeat split; rewrite seqb_sym; apply (seqb_of_smem blank _ A); try (apply smem_true_In; in_solve);
+      apply smem_false; intros Hb; apply (proj1 (disjointb_spec _ _) HNfix blank); in_solve. }
+  assert (disjointb P RI = true) as HPRI by (apply disjointb_app_r in HPt; tauto).
+  assert (disjointb P tf_taboo = true) as HPtab by (apply disjointb_app_r in HPt; tauto).
+  assert (seqb (ret_name m) (rf_name m) = false /\ seqb (ret_name m) (ok_name m) = false /\ seqb (rf_name m) (ok_name m) = false)
+    as (HA12 & HA13 & HA23).
+  { unfold A in HAn. cbn [nodupb] in HAn. rewrite !andb_true_iff, !negb_true_iff in HAn. destruct HAn as (H1 & H2 & _).
+    rewrite !smem_cons in H1, H2. apply orb_false_iff in H1 as [H1a H1b]. apply orb_false_iff in H1b as [H1b _].
+    apply orb_false_iff in H2 as [H2 _]. auto. }
+  destruct (last_variadic (mps m)) eqn:LV; destruct (unroll o) eqn:UN; cbn [negb orb andb].
+  3,4: (destruct (nonempty (mrs m)) eqn:NE; cbn [negb]; cbn [app]; uvar0 c T;
+        [ rewrite (use_vars0 c T); [| tysok | each; envc; apply andb_true_iff; split; [reflexivity | st]]; tail c T tps m HB HLEN
+        | rewrite <- (app_nil_r (uvs true P));
+          rewrite (use_vars0 c T); [reflexivity | tysok | each; envc; apply andb_true_iff; split; [reflexivity | st]] ]).
+  - (* variadic, unrolled: _va / _ca *)
+    destruct (last_variadic_p LV) as (p & LP & HpP). rewrite LP.
+    assert (forall l (cur := add_vars P (declare false (L "_mock") (s_tp T))),
+       wf_items c [] cur
+         ((if pany p then [] else
+            [ub "make"; ub "len"; uv true (pn p); dv (L "_va");
+             IBlock [uv true (pn p); dv (L "_i"); IBlock [uv true (pn p); uv false (L "_i"); uv true (L "_va"); uv false (L "_i")]]]) ++ l)
+       = wf_items c [] (if pany p then cur else declare false (L "_va") cur) l) as VA.
+    { intros l cur. subst cur. destruct (pany p); [reflexivity|]. cbn [app].
+      ubuiltin c T HB. ubuiltin c T HB. uvar0 c T. ddecla.
+      erewrite wf_block_ok; [reflexivity|]. uvar0 c T. ddecla.
+      erewrite wf_block_ok; [reflexivity|]. uvar0 c T. uvarany c T. uvar0 c T. uvarany c T. reflexivity. }
+
+    assert (forall cur l, (cur = add_vars P (declare false (L "_mock") (s_tp T)) \/
+                           cur = declare false (L "_va") (add_vars P (declare false (L "_mock") (s_tp T)))) ->
+       wf_items c [] (declare false (L "_ca") cur)
+         ((if 1 <? length (mps m)
+           then [ub "append"; uv true (L "_ca")] ++ uvs true (pnames (removelast (mps m))) ++ [uv true (L "_ca")] else []) ++ l)
+       = wf_items c [] (declare false (L "_ca") cur) l) as CA.
+    { intros cur l [-> | ->]; (destruct (1 <? length (mps m)); [|reflexivity]); rewrite <- ?app_assoc; cbn [app];
+        ubuiltin c T HB; uvar0 c T;
+        (rewrite (use_vars0 c T); [| tysok | apply forallb_forall; intros x Hx; apply removelast_P in Hx; envc;
+                                             apply andb_true_iff; split; [reflexivity | st]]);
+        cbn [app]; uvar0 c T; reflexivity. }
+    destruct (nonempty (mrs m)) eqn:NE; cbn [negb]; rewrite <- ?app_assoc; rewrite VA;
+      (destruct (pany p); cbn [app]; ddecla; (rewrite CA; [| auto]);
+       cbn [app]; ubuiltin c T HB; uvar0 c T; uvar0 c T; uvar0 c T; uvar0 c T; uvar0 c T);
+      first [reflexivity | tail c T tps m HB HLEN].
+  - (* variadic, not unrolled: tmpRet *)
+    destruct (last_variadic_p LV) as (p & LP & HpP). rewrite LP.
+    destruct (nonempty (mrs m)) eqn:NE; cbn [negb app].
+    + uqual c T HQ. ddecla.
+      erewrite wf_block_ok.
+      2:{ ubuiltin c T HB. uvar0 c T.
+          erewrite wf_block_ok; [| uvar0 c T; p_uses c T; cbn [app]; uvar0 c T; reflexivity].
+          erewrite wf_block_ok; [reflexivity|]. uvar0 c T.
+          rewrite (use_vars0 c T); [| tysok | apply forallb_forall; intros x Hx; apply removelast_P in Hx; envc;
+                                            apply andb_true_iff; split; [reflexivity | st]].
+          cbn [app]. uvar0 c T. reflexivity. }
+      uvar0 c T. tail c T tps m HB HLEN.
+    + erewrite wf_block_ok; [reflexivity|].
+      ubuiltin c T HB. uvar0 c T.
+      erewrite wf_block_ok; [| uvar0 c T; rewrite app_nil_r; rewrite <- (app_nil_r (uvs true P)); p_uses c T; reflexivity].
+      erewrite wf_block_ok; [reflexivity|]. uvar0 c T. rewrite app_nil_r.
+      rewrite <- (app_nil_r (uvs true _)).
+      rewrite (use_vars0 c T); [reflexivity | tysok | apply forallb_forall; intros x Hx; apply removelast_P in Hx; envc;
+                                                      apply andb_true_iff; split; [reflexivity | st]].
+Qed.
+End TestifyMethod.
+
+
+(* ------------------------------------------------------------------ testify: the file *)
+Lemma suffix_not_blank (s t : str) : 2 <= length t -> seqb (s ++ t) blank = false.
+Proof.
+  intros L. apply seqb_neq. intros H. apply (f_equal (@length byte)) in H. rewrite app_length in H.
+  change (length blank) with 1 in H. lia.
+Qed.
+Lemma expecter_not_blank s : seqb (expecter_name s) blank = false.
+Proof. unfold expecter_name. apply suffix_not_blank. cbn. lia. Qed.
+Lemma call_not_blank s n : seqb (call_name s n) blank = false.
+Proof. unfold call_name. apply suffix_not_blank. rewrite !app_length. cbn. lia. Qed.
+
+Section TestifyFile.
+Variables (o : topts) (f : fdata).
+Let s := testify_skel o f.
+Let c := skel_ctx s.
+Hypothesis HD : data_ok f c = true.
+Hypothesis HM : d_tf f = true.
+Hypothesis HG : tf_guards f = true.
+Hypothesis HN : file_names_ok s = true.
+
+Lemma tf_top_in i t : In i (f_ifaces f) -> In t (testify_iface o i) -> In t (s_tops s).
+Proof. intros Hi Ht. unfold s, testify_skel. cbn [s_tops]. apply in_flat_map. exists i. now split. Qed.
+
+Lemma tf_filetype t : In t (s_tops s) -> t_kind t = TType -> seqb (t_name t) blank = false ->
+  smem (t_name t) (c_filetypes c) = true.
+Proof.
+  intros Ht K NB. apply smem_In. unfold c, skel_ctx. cbn [c_filetypes]. unfold top_names.
+  apply in_map. apply filter_In. split; [exact Ht|]. rewrite K, NB. reflexivity.
+Qed.
+
+Lemma d_tf_parts i : In i (f_ifaces f) ->
+  seqb (ifstruct i) blank = false /\ disjointb (tf_gen_types (ifstruct i) (ifms i)) tf_vars = true /\
+  forallb (fun m => disjointb (pnames (mps m)) (tf_gen_types (ifstruct i) (ifms i))) (ifms i) = true.
+Proof.
+  intros Hi. unfold d_tf in HM. rewrite forallb_forall in HM. specialize (HM i Hi). unfold d_tf_iface in HM.
+  rewrite !andb_true_iff, negb_true_iff in HM. tauto.
+Qed.
+
+Lemma tf_S i : In i (f_ifaces f) -> smem (ifstruct i) (c_filetypes c) = true.
+Proof.
+  intros Hi. destruct (d_tf_parts i Hi) as (NB & _).
+  apply (tf_filetype (tf_struct_top i)); [| reflexivity | exact NB].
+  apply (tf_top_in i); [exact Hi|]. unfold testify_iface. right. now left.
+Qed.
+Lemma tf_E i : In i (f_ifaces f) -> smem (expecter_name (ifstruct i)) (c_filetypes c) = true.
+Proof.
+  intros Hi. apply (tf_filetype (tf_expecter_type_top i)); [| reflexivity | apply expecter_not_blank].
+  apply (tf_top_in i); [exact Hi|]. unfold testify_iface. right. right. now left.
+Qed.
+Lemma tf_C i m : In i (f_ifaces f) -> In m (ifms i) -> smem (call_name (ifstruct i) (mn m)) (c_filetypes c) = true.
+Proof.
+  intros Hi Hm. apply (tf_filetype (tf_call_type_top i m)); [| reflexivity | apply call_not_blank].
+  apply (tf_top_in i); [exact Hi|]. unfold testify_iface. apply in_or_app. right.
+  apply in_flat_map. exists m. split; [exact Hm|]. unfold testify_method. right. now left.
+Qed.
+Lemma tf_Q : smem mock_q (c_quals c) = true.
+Proof.
+  apply smem_In. unfold c, skel_ctx, s, testify_skel. cbn [c_quals s_imports]. rewrite map_app. apply in_or_app. right. now left.
+Qed.
+
+Lemma tf_guards_parts i : In i (f_ifaces f) ->
+  g_tparams (iftps i) = true /\ g_tf_tps (ifstruct i) (ifms i) (iftps i) = true /\
+  forallb (fun m => g_capture (iftps i) m && g_tf_params m && g_tf_results m && g_tf_types (ifstruct i) (ifms i) (iftps i) m) (ifms i) = true.
+Proof.
+  intros Hi. unfold tf_guards in HG. apply andb_true_iff in HG as [_ HG']. rewrite forallb_forall in HG'. specialize (HG' i Hi).
+  unfold tf_guards_iface in HG'. rewrite !andb_true_iff in HG'. tauto.
+Qed.
+
+Lemma tf_tops_ok : forallb (wf_top c) (s_tops s) = true.
+Proof.
+  apply forallb_forall. intros t Ht. unfold s, testify_skel in Ht. cbn [s_tops] in Ht.
+  apply in_flat_map in Ht as (i & Hi & Ht).
+  destruct (data_ok_parts _ _ HD) as (_ & _ & _ & _ & _ & HB & HI).
+  rewrite forallb_forall in HI. specialize (HI i Hi).
+  destruct (d_iface_parts _ _ HI) as (HTn & HTcon & HMs).
+  destruct (tf_guards_parts i Hi) as (GT & GTP & GM).
+  destruct (d_tf_parts i Hi) as (NB & HGen & HPGs).
+  pose proof (g_tparams_eq _ GT) as HTe.
+  pose proof (tf_S i Hi) as HS. pose proof (tf_E i Hi) as HE. pose proof tf_Q as HQ.
+  unfold testify_iface in Ht. apply in_app_or in Ht as [Ht|Ht].
+  - destruct Ht as [<-|[<-|[<-|[<-|[]]]]].
+    + apply (tf_ctor_wf c (iftps i) (ifstruct i) (ifms i)); try assumption; reflexivity.
+    + apply (tf_struct_like c (iftps i) (ifstruct i) (ifms i)); assumption.
+    + apply (tf_struct_like c (iftps i) (ifstruct i) (ifms i)); assumption.
+    + apply (tf_expect_wf c (iftps i) (ifstruct i) (ifms i)); try assumption; reflexivity.
+  - apply in_flat_map in Ht as (m & Hm & Ht).
+    rewrite forallb_forall in HMs, GM, HPGs. specialize (HMs m Hm). specialize (GM m Hm). specialize (HPGs m Hm).
+    rewrite !andb_true_iff in GM. destruct GM as [[[GC GP] GR] GTy].
+    pose proof (tf_C i m Hi Hm) as HCt.
+    assert (In (call_name (ifstruct i) (mn m)) (tf_gen_types (ifstruct i) (ifms i))) as HCin.
+    { unfold tf_gen_types. right. right. apply in_map_iff. exists m. now split. }
+    unfold testify_method in Ht. destruct Ht as [<-|[<-|[<-|[<-|[<-|[<-|[]]]]]]].
+    + apply (tf_mock_wf c o (iftps i) (ifstruct i) (ifms i) m); try assumption; reflexivity.
+    + apply (tf_struct_like c (iftps i) (ifstruct i) (ifms i)); assumption.
+    + apply (tf_expecter_method_wf c (iftps i) (ifstruct i) (ifms i) m); try assumption; reflexivity.
+    + apply (tf_run_wf c o (iftps i) (ifstruct i) (ifms i) m); try assumption; reflexivity.
+    + apply (tf_return_wf c (iftps i) (ifstruct i) (ifms i) m); try assumption; reflexivity.
+    + apply (tf_runandreturn_wf c (iftps i) (ifstruct i) (ifms i) m); try assumption; reflexivity.
+Qed.
+
+(* imports *)
+Lemma tf_used_types i q : In i (f_ifaces f) ->
+  In q (flat_map (fun t => ty_quals (tcon t)) (iftps i)
+        ++ flat_map (fun m => flat_map (fun p => ty_quals (pty p)) (mps m) ++ flat_map (fun r => ty_quals (rty r)) (mrs m)) (ifms i)) ->
+  In q (flat_map (fun t => flat_map qual_uses (t_items t)) (s_tops s)).
+Proof.
+  intros Hi Hq. apply in_app_or in Hq as [Hq|Hq].
+  - apply in_flat_map. exists (tf_struct_top i). split.
+    + apply (tf_top_in i); [exact Hi|]. unfold testify_iface. right. now left.
+    + unfold tf_struct_top. cbn [t_items mk_top]. rewrite flat_map_app'. apply in_or_app. left.
+      unfold tp_decl. rewrite flat_map_app'. apply in_or_app. right.
+      apply in_flat_map in Hq as (t & Ht & Hq). eapply (quses_types (iftps i) tcon); eauto.
+  - apply in_flat_map in Hq as (m & Hm & Hq).
+    apply in_flat_map. exists (tf_runandreturn_top i m). split.
+    + apply (tf_top_in i); [exact Hi|]. unfold testify_iface. apply in_or_app. right.
+      apply in_flat_map. exists m. split; [exact Hm|]. unfold testify_method. do 5 right. now left.
+    + unfold tf_runandreturn_top. cbn [t_items mk_top]. rewrite !flat_map_app'.
+      apply in_or_app. right. apply in_or_app. right.
+      apply in_app_or in Hq as [Hq|Hq]; apply in_flat_map in Hq as (x & Hx & Hq).
+      * apply in_or_app. left. eapply (quses_types (iftps i) pty); eauto.
+      * apply in_or_app. right. apply in_or_app. left. eapply (quses_types (iftps i) rty); eauto.
+Qed.
+
+Lemma tf_used_mock : In mock_q (flat_map (fun t => flat_map qual_uses (t_items t)) (s_tops s)).
+Proof.
+  destruct (data_ok_parts _ _ HD) as (_ & _ & _ & _ & NE & _).
+  destruct (f_ifaces f) as [|i rest] eqn:EI; [discriminate|].
+  apply in_flat_map. exists (tf_struct_top i). split.
+  - apply (tf_top_in i); [rewrite EI; now left|]. unfold testify_iface. right. now left.
+  - unfold tf_struct_top. cbn [t_items mk_top]. rewrite flat_map_app'. apply in_or_app. right. cbn. auto.
+Qed.
+
+Lemma tf_imports_ok :
+  (let quals := filter (fun q => negb (seqb q blank) && negb (seqb q dot)) (map snd (s_imports s)) in
+   let used := flat_map (fun t => flat_map qual_uses (t_items t)) (s_tops s) in
+   nodupb (map fst (s_imports s)) && nodupb quals && forallb (fun q => smem q used) quals) = true.
+Proof.
+  cbv zeta. destruct (data_ok_parts _ _ HD) as (N1 & N2 & _ & Hneeded & _).
+  pose proof (reg_of_rinv f N1 (names_ok_nd _ N2)) as [R1 R2].
+  unfold tf_guards in HG. apply andb_true_iff in HG as [GM _]. unfold g_tf_mock_import in GM.
+  apply andb_true_iff in GM as [GM1 GM2]. apply negb_true_iff in GM1, GM2.
+  unfold s, testify_skel. cbn [s_imports]. rewrite !map_app. cbn [map fst snd].
+  rewrite !andb_true_iff. repeat split.
+  - apply nodupb_app. repeat split.
+    + apply nodupb_NoDup. eapply Permutation_NoDup; [apply imports_of_paths | exact R1].
+    + apply disjointb_cons_r; [|apply disjointb_nil_r]. apply smem_false. intros H.
+      apply smem_false in GM2. apply GM2. rewrite <- reg_of_paths.
+      eapply Permutation_in; [apply Permutation_sym, imports_of_paths | exact H].
+  - apply nodupb_filter. apply nodupb_app. repeat split.
+    + apply nodupb_NoDup. eapply Permutation_NoDup; [apply imports_of_quals | exact R2].
+    + apply disjointb_cons_r; [|apply disjointb_nil_r]. apply smem_false. intros H.
+      apply smem_false in GM1. apply GM1. rewrite <- reg_of_quals.
+      eapply Permutation_in; [apply Permutation_sym, imports_of_quals | exact H].
+  - apply forallb_forall. intros q Hq. apply filter_In in Hq as [Hq _]. apply smem_In.
+    apply in_app_or in Hq as [Hq|[<-|[]]]; [| apply tf_used_mock].
+    assert (In q (map snd (f_imports f))) as Hq'.
+    { rewrite <- reg_of_quals. eapply Permutation_in; [apply Permutation_sym, imports_of_quals | exact Hq]. }
+    rewrite forallb_forall in Hneeded. specialize (Hneeded q Hq'). apply smem_In in Hneeded.
+    unfold all_type_quals in Hneeded. apply in_flat_map in Hneeded as (i & Hi & Hqi). eapply tf_used_types; eauto.
+Qed.
+
+Theorem testify_wf : wf_file s = true.
+Proof.
+  rewrite wf_file_split. fold c. rewrite tf_imports_ok, HN, tf_tops_ok. reflexivity.
+Qed.
+End TestifyFile.
